@@ -1,24 +1,28 @@
 """C13 -- sampled variable sets are complete and dependent values are consistent.
 
-D1 is a control-flow rule (E4) on the fixed-point loop of `gen_symbols_samples`.  D2/D3/D4/D6 are
-decided by bounded evaluation (E7d, `_c13_enum`) of the syntax trees of `gen_symbols_samples`,
-`is_subset`, `DependentSampler.__init__/compute_sample/gen_sample`, `construct_constants`,
-`generate_variable_list` (+ `numbered_vars_regexp`) and `gen_var_and_func_samples` over small
-dependency graphs / name sets taken from the property statement, with model objects standing for
-sampling sets, the parser and the evaluator.  D5 adds the regex term analysis of E9 (`_c13_regex`)
-with the joined list of heads as a hole.  Nothing of /repo is imported or executed.
+Every clause is decided from the shape of the code:
+* D1  CFG: the fixed-point loop of `gen_symbols_samples` (flag reset / set only after a removal / a round without
+      progress always raises ConfigError);
+* D2  NF (key sets): pruned constants, per-sample copy, independent draws inside the sample loop, complementary
+      partition of the symbols, collection after the loop;
+* D3  ROLE: a dependent is stored into the dict it is computed from, under the readiness test `is_subset(deps, dict)`;
+      normal form of `is_subset`;
+* D4  NF/GUARD: DependentSampler (depends from the parsed formula, CalcError -> ConfigError, argument roles of the
+      evaluator call, gen_sample always raises);
+* D5  REGEX term (E9) with the joined heads as a hole + NF/ROLE of `generate_variable_list`;
+* D6  NF/ROLE: `construct_constants`, `gen_var_and_func_samples`.
+Nothing of /repo is imported or executed.
 """
 import ast
-import itertools
-import re
+from re import _constants as sre_c
+from re import _parser as sre_parse
 
-from ..index import AnalysisError, walk_own, short, unparse
+from ..index import AnalysisError, walk_own, short, unparse, parent
 from ..cfg import cfg_of
 from .. import nf, lib
 from ..selftest import Mutant, Benign
-from ._c13_enum import (Interp, Model, Obj, Sym, Native, Raised, Budget, ClassRef, FuncRef, describe)
 from . import _c13_regex as rx
-from re import _constants as sre_c
+from . import _c13_nfx as X
 
 ID = 'C13'
 SAMPLING = 'mitxgraders/sampling.py'
@@ -26,99 +30,80 @@ MH = 'mitxgraders/helpers/math_helpers.py'
 FILES = [SAMPLING, MH]
 
 EXPLANATION = (
-    "(D1, CFG) in gen_symbols_samples' `while <unevaluated dependents>` loop the progress flag is reset on every "
-    "round before it is tested, it is set only where a dependent has just been removed from the pending dict, and "
-    "every path of a round without progress ends in `raise ConfigError` (no back-edge, no return); "
-    "(D2/D3, bounded evaluation over dependency graphs: chains in every declaration order, diamonds, fan-in/out, "
-    "dependence on constants, shadowed constants, cycles, dangling references) every sample dict has exactly the "
-    "keys symbols + unshadowed constants, independent values are fresh draws of the symbol's own sampler, a "
-    "dependent's value is compute_sample(...) on the values of the *same* sample after all its dependencies are "
-    "present, samples are distinct dicts, the caller's dicts are not mutated, cycles and dangling references raise "
-    "ConfigError instead of looping; (D4) DependentSampler takes `depends` from the parsed formula, turns CalcError "
-    "into ConfigError in the constructor and in compute_sample, evaluates its own formula on the given sample with "
-    "the given functions/suffixes and returns the value, gen_sample always raises; (D5) the numbered-variable "
-    "pattern keeps the alternation of heads intact inside its own group within the full-name group, is anchored at "
-    "the end, its index language is `0 | -?[1-9][0-9]*`; generate_variable_list adds exactly the well-formed "
-    "numbered instances that are not declared variables, each with its head's sampler, without touching the "
-    "configuration; (D6) construct_constants = copy of the defaults overridden by the user's entries; "
-    "gen_var_and_func_samples adds sibling formulas as DependentSamplers, refuses empty siblings with MissingInput "
-    "and hands variables/samples/samplers/functions/suffixes/constants to gen_symbols_samples in their roles.")
-NOT_DECIDED = ("numeric values of dependent variables (the formula evaluator, C03); graphs larger than those "
-               "enumerated; termination of the sampler draws themselves (C12).")
-ASSUMPTIONS = ["samplers' gen_sample and DependentSampler.compute_sample are the only sources of values (model objects stand for them)",
-               "the stdlib re module behaves as documented"]
+    "(D1, CFG) in gen_symbols_samples' `while <pending dependents>` loop the progress flag is reset on every round before it "
+    "is tested, it is set only where a dependent has just been removed from the pending dict, and every path of a round "
+    "without progress ends in `raise ConfigError` (no back-edge, no return); (D2, NF) the sample dict starts as a copy, made "
+    "inside the per-sample loop, of {constants not in symbols}; it is updated with gen_sample() of every symbol whose sampler "
+    "is not a DependentSampler, drawn inside that loop; the pending dict holds exactly the complementary symbols; the dict is "
+    "appended after the loop `while pending` (hence with every dependent present) once per range(samples) and the list is "
+    "returned; (D3, ROLE) sample[s] = sample_from[s].compute_sample(sample, functions, suffixes) -- same dict, same symbol, "
+    "functions/suffixes in their roles -- executed only under is_subset(<its depends>, sample); is_subset is the universal "
+    "membership test; (D4) DependentSampler.__init__ stores list(parse(formula).variables_used) as depends inside a handler "
+    "that turns CalcError into ConfigError; compute_sample calls evaluator(formula=own formula, variables=the given sample, "
+    "functions, suffixes) under the same translation and returns the value; gen_sample raises on every path; (D5, REGEX) "
+    "the numbered-variable pattern keeps the alternation of heads intact in group 2 at the start of group 1, is anchored at "
+    "the end (or applied with fullmatch), and its index term equals `-?[1-9][0-9]*|0` as a regex AST; generate_variable_list "
+    "works on copies of config['variables'] / config['sample_from'], matches only names that are not declared, appends group 1 "
+    "and gives it the sampler of group 2; (D6) construct_constants = copy of the defaults then the user's entries; "
+    "gen_var_and_func_samples declares every sibling, refuses empty ones with MissingInput before building "
+    "DependentSampler(formula=<its formula>), searches all expressions incl. dict values, and passes "
+    "variables/samples/samplers/functions/suffixes/constants to gen_symbols_samples in their roles.")
+NOT_DECIDED = ("numeric values of dependent variables (the formula evaluator, C03); that the evaluator raises for a missing "
+               "variable; termination of the samplers' own draws (C12); regex engine semantics (trusted).")
+ASSUMPTIONS = ["samplers' gen_sample and DependentSampler.compute_sample are the only sources of sampled values",
+               "heads of numbered variables are plain identifiers (the parser's `front`), so re.escape is not load-bearing"]
 
 GSS = 'mitxgraders.sampling.gen_symbols_samples'
 DS = 'mitxgraders.sampling.DependentSampler'
-RI = 'mitxgraders.sampling.RealInterval'
 MM = 'mitxgraders.helpers.math_helpers.MathMixin'
 EVALUATOR = 'mitxgraders.helpers.calc.expressions.evaluator'
-PARSE = 'mitxgraders.helpers.calc.expressions.parse'
-UNDEF = 'mitxgraders.helpers.calc.exceptions.UndefinedVariable'
-UNPARSE = 'mitxgraders.helpers.calc.exceptions.UnableToParse'
+CALC_COVER = ('CalcError', 'StudentFacingError', 'MITxError', 'Exception', 'BaseException')
 
 
 def check(ctx):
-    idx = ctx.index
-    d1_progress(ctx, idx)
-    d2_samples(ctx, idx)
-    d4_dependent(ctx, idx)
-    d5_regex(ctx, idx)
-    d5_numbered(ctx, idx)
-    d6_constants(ctx, idx)
-    d6_siblings(ctx, idx)
+    _run_all(ctx, ctx.index, [d1_progress, d2_keys, d3_roles, d4_dependent, d5_regex, d5_numbered, d6_constants, d6_siblings])
 
 
-def _name(cls):
-    return cls.split('.')[-1] if isinstance(cls, str) else cls
+def _run_all(ctx, idx, fns):
+    """Run the rule functions; an unexpected failure inside the checker is an analysis error, never a crash."""
+    for f in fns:
+        try:
+            f(ctx, idx)
+        except AnalysisError:
+            raise
+        except Exception as e:      # pragma: no cover - defensive
+            ctx.rule('ENGINE.%s' % f.__name__, 'the checker could not finish this rule').undecided(
+                '<checker>', '%s: %s' % (type(e).__name__, e))
 
 
-class Groups(object):
-    def __init__(self, rule, where):
-        self.rule = rule
-        self.where = where
-        self.groups = {}
-        self.order = []
-
-    def case(self, group, ok, scenario, expected, found):
-        g = self.groups.setdefault(group, {'n': 0, 'bad': []})
-        if group not in self.order:
-            self.order.append(group)
-        g['n'] += 1
-        if not ok:
-            g['bad'].append((scenario, expected, found))
-
-    def flush(self):
-        for group in self.order:
-            g = self.groups[group]
-            if g['bad']:
-                sc, exp, fnd = g['bad'][0]
-                self.rule.violation(group, 'for %s the code gives %s, the property needs %s (%d of %d cases differ)'
-                                    % (sc, fnd, exp, len(g['bad']), g['n']), self.where, expected=str(exp), found=str(fnd))
-            else:
-                self.rule.ok(group, '%d cases agree with the reference' % g['n'], self.where)
+def verdict(r, construct, res, where, ok_detail='', expected=None, why=''):
+    if res == nf.MATCH:
+        r.ok(construct, ok_detail, where)
+    elif isinstance(res, tuple):
+        r.violation(construct, res[1] + (': ' + why if why else ''), where, expected=expected)
+    else:
+        r.undecided(construct, 'shape not recognised' + (' (expected %s)' % expected if expected else ''), where)
 
 
-def outcome(fn):
+def _sub(r, f, *args):
+    """Run one obligation group; an unrecognised shape there does not hide the verdicts of the others."""
     try:
-        return ('ret', fn())
-    except Raised as r:
-        return ('raise', _name(r.cls), r.eargs)
-    except Budget:
-        return ('loop', None)
+        return f(*args)
+    except AnalysisError as e:
+        r.undecided('<%s>' % f.__name__.strip('_'), str(e))
+        return None
 
 
-def show(res):
-    if res[0] == 'raise':
-        return 'raise %s' % res[1]
-    if res[0] == 'loop':
-        return 'no result within the step bound (the loop does not end)'
-    return 'returns %s' % (_short(res[1]),)
+def _is_probe(s):
+    return (isinstance(s, ast.Assign) and len(s.targets) == 1 and isinstance(s.targets[0], ast.Name)
+            and isinstance(s.value, ast.Constant)) or (isinstance(s, ast.Expr))
 
 
-def _short(v, limit=260):
-    text = repr(v)
-    return text if len(text) <= limit else text[:limit - 3] + '...'
+def _body(stmts):
+    """Statements without docstrings / constant-assignment probes / expression statements that are plain calls of log."""
+    return [s for s in stmts if not (isinstance(s, ast.Expr) and isinstance(s.value, ast.Constant))
+            and not (isinstance(s, ast.Assign) and len(s.targets) == 1 and isinstance(s.targets[0], ast.Name)
+                     and isinstance(s.value, ast.Constant) and s.targets[0].id.startswith('_sa_'))]
 
 
 # ----------------------------------------------------------------------------- D1
@@ -251,275 +236,428 @@ def _removes_from(stmt, name):
     return False
 
 
-# ----------------------------------------------------------------------------- D2 / D3
-class Graph(object):
-    """A sampling configuration: declaration order, dependencies, constants."""
-
-    def __init__(self, label, symbols, deps, constants=None, samples=2, valid=True):
-        self.label = label
-        self.symbols = list(symbols)
-        self.deps = dict(deps)          # dependent symbol -> list of names it depends on
-        self.constants = dict(constants or {})
-        self.samples = samples
-        self.valid = valid
 
 
-def graphs():
-    out = []
-    chain = {'b': ['a'], 'c': ['b']}
-    for perm in itertools.permutations(['a', 'b', 'c']):
-        out.append(Graph('chain a->b->c declared as %s' % list(perm), perm, chain))
-    out.append(Graph('chain of six declared in reverse', ['f', 'e2', 'd', 'c', 'b', 'a'],
-                     {'b': ['a'], 'c': ['b'], 'd': ['c'], 'e2': ['d'], 'f': ['e2']}, samples=3))
-    for perm in (['d', 'c', 'b', 'a'], ['a', 'd', 'b', 'c'], ['c', 'd', 'a', 'b']):
-        out.append(Graph('diamond a->(b,c)->d declared as %s' % perm, perm, {'b': ['a'], 'c': ['a'], 'd': ['b', 'c']}))
-    out.append(Graph('fan-in z=f(x,y,w)', ['z', 'x', 'y', 'w'], {'z': ['x', 'y', 'w']}))
-    out.append(Graph('fan-out', ['p', 'q', 'r', 's'], {'q': ['p'], 'r': ['p'], 's': ['p']}))
-    out.append(Graph('no dependents', ['x', 'y'], {}, constants={'pi': 3.14}))
-    out.append(Graph('no symbols', [], {}, constants={'pi': 3.14, 'i': 1j}))
-    out.append(Graph('dependence on a constant', ['d', 'x'], {'d': ['pi', 'x']}, constants={'pi': 3.14, 'i': 1j}))
-    out.append(Graph('dependent without dependencies', ['k', 'x'], {'k': []}, constants={'pi': 3.14}))
-    out.append(Graph('independent variable e shadows the constant e', ['y', 'e', 'x'], {'y': ['e', 'x']},
-                     constants={'e': 2.718, 'pi': 3.14}))
-    out.append(Graph('dependent variable e shadows the constant e', ['y', 'e', 'x'], {'e': ['x'], 'y': ['e']},
-                     constants={'e': 2.718, 'pi': 3.14}))
-    out.append(Graph('numbered instances', ['s', 'b_{1}', 'b_{-2}'], {'s': ['b_{1}', 'b_{-2}']}))
-    # invalid configurations
-    out.append(Graph('two-cycle a<->b', ['a', 'b'], {'a': ['b'], 'b': ['a']}, valid=False))
-    out.append(Graph('self-dependence', ['a', 'x'], {'a': ['a', 'x']}, valid=False))
-    out.append(Graph('three-cycle next to a valid chain', ['x', 'y', 'p', 'q', 'r'],
-                     {'y': ['x'], 'p': ['r'], 'q': ['p'], 'r': ['q']}, valid=False))
-    out.append(Graph('cycle reached after progress', ['c', 'b', 'a', 'u', 'v'],
-                     {'b': ['a'], 'c': ['b'], 'u': ['v', 'c'], 'v': ['u']}, valid=False))
-    out.append(Graph('dangling reference', ['a', 'x'], {'a': ['x', 'zz']}, valid=False))
-    out.append(Graph('dangling reference behind a chain', ['c', 'b', 'a'], {'b': ['a'], 'c': ['b', 'nowhere']}, valid=False))
-    return out
+# ----------------------------------------------------------------------------- D2 / D3 anchors
+class Anchors(object):
+    """Named constructs of gen_symbols_samples found through def-use (never through positions)."""
 
-
-def run_graph(idx, fi, g):
-    it = Interp(idx, Model(), max_steps=60000)
-    counter = [0]
-    log = []
-    FUNCS, SUFF = {'sin': Sym('sin')}, {'%': 0.01}
-    sample_from = {}
-
-    def make_indep(name):
-        def gen_sample():
-            counter[0] += 1
-            return ('draw', name, counter[0])
-        return Obj(RI, stubs={'gen_sample': Native(gen_sample, 'gen_sample')}, name='sampler:' + name)
-
-    def make_dep(name, depends):
-        def compute_sample(sample_dict, functions, suffixes):
-            missing = [d for d in depends if d not in sample_dict]
-            log.append((name, id(sample_dict), dict(sample_dict), functions is FUNCS and suffixes is SUFF, missing))
-            if missing:
-                raise Raised('ConfigError', ['formula error: %s undefined' % missing])
-            return ('dep', name, tuple((d, sample_dict[d]) for d in depends))
-        return Obj(DS, fields={'config': {'depends': list(depends), 'formula': 'formula-of-' + name}},
-                   stubs={'compute_sample': Native(compute_sample, 'compute_sample'),
-                          'gen_sample': Native(lambda: (_ for _ in ()).throw(Raised('Exception', ['gen_sample of a DependentSampler'])))},
-                   name='sampler:' + name)
-    for s in g.symbols:
-        sample_from[s] = make_dep(s, g.deps[s]) if s in g.deps else make_indep(s)
-    symbols = list(g.symbols)
-    constants = dict(g.constants)
-    snap = (list(symbols), dict(constants), dict(sample_from))
-    res = outcome(lambda: it.call_function(fi, [symbols, g.samples, sample_from, FUNCS, SUFF, constants]))
-    untouched = (symbols == snap[0] and constants == snap[1] and sample_from == snap[2])
-    return res, log, untouched
-
-
-def judge_graph(g, res, log, untouched):
-    """None if the outcome is what the property needs, else (expected, found)."""
-    if not g.valid:
-        if res[0] == 'raise' and res[1] == 'ConfigError':
-            return None
-        return 'ConfigError', show(res)
-    if res[0] != 'ret':
-        return 'a list of %d complete sample dicts' % g.samples, show(res) + (
-            ' (compute_sample called with %s missing)' % [e[4] for e in log if e[4]][0] if any(e[4] for e in log) else '')
-    out = res[1]
-    if not isinstance(out, list) or len(out) != g.samples or not all(isinstance(d, dict) for d in out):
-        return 'a list of %d sample dicts' % g.samples, show(res)
-    if len({id(d) for d in out}) != len(out):
-        return 'distinct dicts per sample', 'the same dict object for several samples'
-    keys = set(g.symbols) | {c for c in g.constants if c not in g.symbols}
-    seen_draws = set()
-    for i, d in enumerate(out):
-        if set(d) != keys:
-            return 'keys %s in every sample' % sorted(keys), 'sample %d has keys %s' % (i, sorted(d))
-        for c in g.constants:
-            if c not in g.symbols and d[c] != g.constants[c]:
-                return 'constant %s = %r' % (c, g.constants[c]), 'sample %d has %s = %r' % (i, c, d[c])
-        for s in g.symbols:
-            v = d[s]
-            if s not in g.deps:
-                if not (isinstance(v, tuple) and v[:2] == ('draw', s)):
-                    return 'sample[%s] drawn from the sampling set of %s' % (s, s), 'sample %d has %s = %r' % (i, s, v)
-                if v in seen_draws:
-                    return 'a fresh draw per sample', 'sample %d reuses the draw %r' % (i, v)
-                seen_draws.add(v)
-            else:
-                if not (isinstance(v, tuple) and v[:2] == ('dep', s)):
-                    return 'sample[%s] computed by its DependentSampler' % s, 'sample %d has %s = %r' % (i, s, v)
-                for dep, used in v[2]:
-                    if used != d[dep] or (dep in g.constants and dep not in g.symbols and used != g.constants[dep]):
-                        return ('%s computed from the value of %s in the same sample' % (s, dep),
-                                'sample %d: %s was computed with %s = %r but the sample has %s = %r' % (i, s, dep, used, dep, d[dep]))
-    if any(not e[3] for e in log):
-        return 'compute_sample(sample_dict, functions, suffixes)', 'functions/suffixes passed in other roles'
-    if any(e[4] for e in log):
-        return 'compute_sample only once all dependencies are present', 'called for %s with %s missing' % (
-            [e[0] for e in log if e[4]][0], [e[4] for e in log if e[4]][0])
-    if not untouched:
-        return "the caller's symbols / constants / sample_from unchanged", 'one of them was modified'
-    return None
-
-
-def d2_samples(ctx, idx):
-    r = ctx.rule('D2.SAMPLES', 'every sample has all symbols and unshadowed constants, dependents are computed from the same '
-                 'sample after their dependencies, cycles/dangling references raise ConfigError', floor=7)
-    with r:
+    def __init__(self, idx):
         fi = idx.func(GSS)
+        self.fi = fi
+        fn = self.fn = fi.node
         if fi.params != ['symbols', 'samples', 'sample_from', 'functions', 'suffixes', 'constants']:
             raise AnalysisError('gen_symbols_samples: signature changed: %s' % fi.params)
-        G = Groups(r, fi.loc)
-        names = {
-            'chain': 'gen_symbols_samples: dependency chains resolve in every declaration order',
-            'diamond': 'gen_symbols_samples: diamonds / fan-in / fan-out resolve with consistent values',
-            'const': 'gen_symbols_samples: constants are included unless shadowed by a variable',
-            'plain': 'gen_symbols_samples: independent symbols get fresh draws in distinct dicts',
-            'cycle': 'gen_symbols_samples: circular dependencies raise ConfigError instead of looping',
-            'dangling': 'gen_symbols_samples: dependencies on undefined quantities raise ConfigError',
-        }
-        for g in graphs():
-            res, log, untouched = run_graph(idx, fi, g)
-            verdict = judge_graph(g, res, log, untouched)
-            if not g.valid:
-                key = 'dangling' if 'dangling' in g.label else 'cycle'
-            elif 'chain' in g.label:
-                key = 'chain'
-            elif 'constant' in g.label:
-                key = 'const'
-            elif g.deps and 'numbered' not in g.label and 'without' not in g.label:
-                key = 'diamond'
+        rets = lib.returns_of(fn)
+        if len(rets) != 1 or not isinstance(rets[0].value, ast.Name):
+            raise AnalysisError('gen_symbols_samples: expected `return <list of samples>`')
+        self.ret = rets[0]
+        self.LIST = rets[0].value.id
+        apps = X.find_stmts(fn, "%s.append(_D)" % self.LIST)
+        if len(apps) != 1 or not isinstance(apps[0][1]['_D'], ast.Name):
+            raise AnalysisError('gen_symbols_samples: expected one `%s.append(<sample dict>)`' % self.LIST)
+        self.append = apps[0][0]
+        self.D = apps[0][1]['_D'].id
+        self.sample_loop = X.enclosing_loop(self.append)
+        if not isinstance(self.sample_loop, ast.For):
+            raise AnalysisError('gen_symbols_samples: the sample dict is not appended inside a for loop')
+        whiles = [n for n in walk_own(fn) if isinstance(n, ast.While)]
+        if len(whiles) != 1 or not isinstance(whiles[0].test, ast.Name):
+            raise AnalysisError('gen_symbols_samples: expected one `while <pending dict>` loop')
+        self.w = whiles[0]
+        self.W = self.w.test.id
+
+    def assigns(self, name):
+        return [s for s in walk_own(self.fn) if isinstance(s, ast.Assign) and len(s.targets) == 1
+                and X.is_name(s.targets[0], name)]
+
+
+def _comp_over(e, source_names):
+    """(comprehension node, key target name, test list) if e is a dict/list/set comprehension with a single generator
+    over one of the given names (or its .items()/.keys())."""
+    if not isinstance(e, (ast.DictComp, ast.ListComp, ast.SetComp, ast.GeneratorExp)) or len(e.generators) != 1:
+        return None
+    g = e.generators[0]
+    it = g.iter
+    if isinstance(it, ast.Call) and isinstance(it.func, ast.Attribute) and it.func.attr in ('items', 'keys') and not it.args:
+        src, items = it.func.value, it.func.attr == 'items'
+    else:
+        src, items = it, False
+    if not (isinstance(src, ast.Name) and src.id in source_names):
+        return None
+    if items:
+        if not (isinstance(g.target, ast.Tuple) and len(g.target.elts) == 2 and all(isinstance(t, ast.Name) for t in g.target.elts)):
+            return None
+        key = g.target.elts[0].id
+    else:
+        if not isinstance(g.target, ast.Name):
+            return None
+        key = g.target.id
+    return e, key, list(g.ifs), src.id
+
+
+def _is_dependent_test(test, key):
+    """+1 if test is isinstance(sample_from[key], DependentSampler), -1 if its negation, 0 otherwise."""
+    t = nf.canon(test)
+    if X.m("isinstance(sample_from[%s], DependentSampler)" % key, t) is not None:
+        return 1
+    if X.m("not isinstance(sample_from[%s], DependentSampler)" % key, t) is not None:
+        return -1
+    return 0
+
+
+def d2_keys(ctx, idx):
+    r = ctx.rule('D2.KEYS', 'every sample dict = copy of the unshadowed constants + a draw for every independent symbol + every '
+                 'dependent (loop exit), made afresh inside the per-sample loop', floor=8)
+    with r:
+        A = Anchors(idx)
+        fi, fn = A.fi, A.fn
+        # K6 the sample loop and the collection
+        verdict(r, 'gen_symbols_samples: one sample per requested sample', nf.classify("range(samples)", A.sample_loop.iter),
+                lib.loc(fi, A.sample_loop), 'for _ in range(samples)', expected='range(samples)',
+                why='the graders index the returned list with range(config[samples])')
+        r.check(X.in_subtree(A.w, A.sample_loop) and X.dominates(fi, A.w, A.append) and not X.in_subtree(A.append, A.w),
+                'gen_symbols_samples: the sample is collected after the dependency loop has ended',
+                '`while %s` precedes %s.append(%s)' % (A.W, A.LIST, A.D),
+                'the sample dict is appended before/inside the dependency loop: dependents may be missing from it', lib.loc(fi, A.append))
+        linit = A.assigns(A.LIST)
+        r.check(len(linit) == 1 and isinstance(linit[0].value, ast.List) and not linit[0].value.elts
+                and not X.in_subtree(linit[0], A.sample_loop), 'gen_symbols_samples: the result list starts empty, once',
+                '%s = []' % A.LIST, 'the list of samples is (re)initialised as `%s`%s' % (
+                    short(linit[0].value) if linit else '?', ' inside the loop' if linit and X.in_subtree(linit[0], A.sample_loop) else ''),
+                lib.loc(fi, linit[0]) if linit else fi.loc)
+        # K2 the per-sample dict
+        dinit = A.assigns(A.D)
+        if len(dinit) != 1:
+            raise AnalysisError('gen_symbols_samples: expected one initialisation of the sample dict, found %d' % len(dinit))
+        init = dinit[0]
+        construct = 'gen_symbols_samples: each sample starts as a fresh copy of the pruned constants'
+        src = X.copy_source(init.value)
+        P = None
+        if not X.in_subtree(init, A.sample_loop):
+            r.violation(construct, 'the sample dict is created once, outside the per-sample loop: every entry of the returned list is the '
+                        'same dict (all samples identical)', lib.loc(fi, init))
+        elif isinstance(src, ast.Name):
+            P = src.id
+            if P == 'constants':
+                r.violation(construct, 'the sample starts from all constants, including those shadowed by a variable: a dependent that '
+                            'uses a name declared as variable can be computed from the constant of the same name', lib.loc(fi, init),
+                            expected='{constants not in symbols}.copy()')
+                P = None
             else:
-                key = 'plain'
-            G.case(names[key], verdict is None, '%s (symbols %s, depends %s, constants %s)' % (
-                g.label, g.symbols, g.deps, sorted(g.constants)), verdict[0] if verdict else '', verdict[1] if verdict else '')
-        G.flush()
-        # is_subset, the readiness test
+                r.ok(construct, short(init.value), lib.loc(fi, init))
+        elif isinstance(init.value, ast.Name):
+            r.violation(construct, '`%s = %s` aliases one dict for all samples (no copy): every sample overwrites the previous one and '
+                        'the shared constants dict is modified' % (A.D, init.value.id), lib.loc(fi, init), expected='%s.copy()' % init.value.id)
+        elif (isinstance(init.value, ast.Dict) and not init.value.keys) or X.m("dict()", init.value) is not None:
+            r.violation(construct, 'the sample starts empty: constants (pi, e, i, user constants) are missing from the samples and from '
+                        'the scope of dependent formulas', lib.loc(fi, init), expected='pruned_constants.copy()')
+        else:
+            r.undecided(construct, 'initial value not recognised: %s' % short(init.value), lib.loc(fi, init))
+        # K1 pruning
+        construct = 'gen_symbols_samples: constants shadowed by a symbol are pruned'
+        if P is not None:
+            pdefs = A.assigns(P)
+            if len(pdefs) != 1:
+                raise AnalysisError('definition of %s not unique' % P)
+            pv = pdefs[0].value
+            c = _comp_over(pv, {'constants'})
+            if c is None:
+                s2 = X.copy_source(pv)
+                if X.is_name(pv, 'constants') or X.is_name(s2, 'constants'):
+                    r.violation(construct, '`%s` is all of `constants`: a constant with the name of a declared variable stays in the sample '
+                                'until (unless) the variable is computed, so dependents can be evaluated with the constant' % short(pv),
+                                lib.loc(fi, pdefs[0]), expected='{c: constants[c] for c in constants if c not in symbols}')
+                else:
+                    r.undecided(construct, 'definition not recognised: %s' % short(pv), lib.loc(fi, pdefs[0]))
+            else:
+                comp, key, ifs, _ = c
+                tests = [nf.canon(t) for t in ifs]
+                good = [t for t in tests if X.m("%s not in symbols" % key, t) is not None]
+                inv = [t for t in tests if X.m("%s in symbols" % key, t) is not None]
+                valok = isinstance(comp, ast.DictComp) and X.is_name(comp.key, key) and (
+                    X.m("constants[%s]" % key, comp.value) is not None or
+                    (isinstance(comp.generators[0].target, ast.Tuple) and X.is_name(comp.value, comp.generators[0].target.elts[1].id)))
+                if inv:
+                    r.violation(construct, 'the filter is inverted (`%s`): only the shadowed constants are kept' % short(inv[0]), lib.loc(fi, pdefs[0]))
+                elif not ifs:
+                    r.violation(construct, 'the comprehension has no filter: shadowed constants are not pruned', lib.loc(fi, pdefs[0]))
+                elif len(good) == 1 and len(ifs) == 1 and valok:
+                    r.ok(construct, short(pv, 90), lib.loc(fi, pdefs[0]))
+                else:
+                    r.undecided(construct, 'filter not recognised: %s' % short(pv), lib.loc(fi, pdefs[0]))
+        # K4 partition of the symbols
+        wdefs = A.assigns(A.W)
+        construct_w = 'gen_symbols_samples: the pending dict holds exactly the DependentSampler symbols with their depends'
+        if len(wdefs) != 1:
+            raise AnalysisError('definition of the pending dict not unique')
+        cw = _comp_over(wdefs[0].value, {'symbols'})
+        if cw is None or not isinstance(cw[0], ast.DictComp):
+            r.undecided(construct_w, 'definition not recognised: %s' % short(wdefs[0].value), lib.loc(fi, wdefs[0]))
+        else:
+            comp, key, ifs, _ = cw
+            pol = [_is_dependent_test(t, key) for t in ifs]
+            valok = X.is_name(comp.key, key) and X.m("sample_from[%s].config['depends']" % key, comp.value) is not None
+            if len(ifs) == 1 and pol == [1] and valok and X.in_subtree(wdefs[0], A.sample_loop):
+                r.ok(construct_w, short(wdefs[0].value, 90), lib.loc(fi, wdefs[0]))
+            elif len(ifs) == 1 and pol == [-1]:
+                r.violation(construct_w, 'the filter is negated: the independent symbols are treated as pending dependents', lib.loc(fi, wdefs[0]))
+            elif not ifs:
+                r.violation(construct_w, 'no filter: every symbol is treated as a dependent', lib.loc(fi, wdefs[0]))
+            elif not X.in_subtree(wdefs[0], A.sample_loop):
+                r.violation(construct_w, 'the pending dict is built once outside the sample loop: after the first sample it is empty and '
+                            'later samples contain no dependents', lib.loc(fi, wdefs[0]))
+            else:
+                r.undecided(construct_w, 'not recognised: %s' % short(wdefs[0].value), lib.loc(fi, wdefs[0]))
+        # K3 independent draws
+        construct = 'gen_symbols_samples: every non-dependent symbol gets a fresh draw in every sample'
+        gens = [c for c in walk_own(fn) if isinstance(c, ast.Call) and nf.callee_name(c) == 'gen_sample']
+        if len(gens) != 1:
+            raise AnalysisError('gen_symbols_samples: expected one gen_sample() call, found %d' % len(gens))
+        g = gens[0]
+        comp = parent(g)
+        while comp is not None and not isinstance(comp, (ast.DictComp, ast.stmt)):
+            comp = parent(comp)
+        I = None
+        if isinstance(comp, ast.DictComp) and len(comp.generators) == 1 and isinstance(comp.generators[0].target, ast.Name) \
+                and isinstance(comp.generators[0].iter, ast.Name) and not comp.generators[0].ifs:
+            key = comp.generators[0].target.id
+            I = comp.generators[0].iter.id
+            shape_ok = X.is_name(comp.key, key) and X.m("sample_from[%s].gen_sample()" % key, comp.value) is not None
+        else:
+            shape_ok = False
+        st = lib.enclosing_stmt(g)
+        if not shape_ok:
+            r.undecided(construct, 'draw not recognised: %s' % short(st), lib.loc(fi, st))
+        elif not X.in_subtree(st, A.sample_loop):
+            r.violation(construct, 'gen_sample() is called outside the per-sample loop: all samples share one draw per variable '
+                        '(a wrong answer that happens to agree at that point is accepted)', lib.loc(fi, st))
+        else:
+            into = X.m(X.spat("%s.update(_X)" % A.D), st) is not None and X.in_subtree(g, st)
+            if not into:
+                # the dict of draws may be bound to a name first
+                if isinstance(st, ast.Assign) and len(st.targets) == 1 and isinstance(st.targets[0], ast.Name):
+                    into = bool(X.find_stmts(A.sample_loop, "%s.update(%s)" % (A.D, st.targets[0].id), own=False))
+            r.check(into and X.dominates(fi, st, A.w), construct, 'drawn into the sample dict before the dependency loop',
+                    'the draws are not merged into the sample dict before the dependents are resolved', lib.loc(fi, st))
+        construct_i = 'gen_symbols_samples: the independent symbols are exactly the non-DependentSampler symbols'
+        if I is not None:
+            idefs = A.assigns(I)
+            if len(idefs) != 1:
+                raise AnalysisError('definition of %s not unique' % I)
+            ci = _comp_over(idefs[0].value, {'symbols'})
+            if ci is None or isinstance(ci[0], ast.DictComp):
+                r.undecided(construct_i, 'definition not recognised: %s' % short(idefs[0].value), lib.loc(fi, idefs[0]))
+            else:
+                comp2, key, ifs, _ = ci
+                pol = [_is_dependent_test(t, key) for t in ifs]
+                if len(ifs) == 1 and pol == [-1] and X.is_name(comp2.elt, key):
+                    r.ok(construct_i, short(idefs[0].value, 90), lib.loc(fi, idefs[0]))
+                elif len(ifs) == 1 and pol == [1]:
+                    r.violation(construct_i, 'the `not` is missing: gen_sample() is called on the DependentSamplers (which always raises) and the '
+                                'independent symbols are never drawn', lib.loc(fi, idefs[0]), expected='if not isinstance(sample_from[symbol], DependentSampler)')
+                elif not ifs:
+                    r.violation(construct_i, 'no filter: gen_sample() is also called on DependentSamplers, which always raises', lib.loc(fi, idefs[0]))
+                else:
+                    r.undecided(construct_i, 'filter not recognised', lib.loc(fi, idefs[0]))
+
+
+def d3_roles(ctx, idx):
+    r = ctx.rule('D3.ROLE', 'a dependent is computed from the dict it is stored into, with functions/suffixes in their roles, only '
+                 'when is_subset(<its depends>, that dict); is_subset is the universal membership test', floor=3)
+    with r:
+        A = Anchors(idx)
+        fi, fn = A.fi, A.fn
+        calls = [c for c in walk_own(fn) if isinstance(c, ast.Call) and nf.callee_name(c) == 'compute_sample']
+        if len(calls) != 1:
+            raise AnalysisError('gen_symbols_samples: expected one compute_sample call')
+        c = calls[0]
+        st = lib.enclosing_stmt(c)
+        b = X.m(X.spat("%s[_S] = sample_from[_S].compute_sample(_A0, _A1, _A2)" % A.D), st)
+        construct = 'gen_symbols_samples: dependent value = its own sampler evaluated on this very sample'
+        if b is None:
+            b2 = X.m(X.spat("_T[_S] = _R[_S2].compute_sample(_A0, _A1, _A2)"), st)
+            if b2 is not None and not (X.is_name(b2['_T'], A.D)):
+                r.violation(construct, 'the computed value is stored into `%s`, not into the sample dict' % short(b2['_T']), lib.loc(fi, st))
+            elif b2 is not None and not nf.equal(b2['_S'], b2['_S2']):
+                r.violation(construct, "the value stored under `%s` is computed by the sampler of `%s`" % (short(b2['_S']), short(b2['_S2'])), lib.loc(fi, st))
+            else:
+                r.undecided(construct, 'statement not recognised: %s' % short(st), lib.loc(fi, st))
+            return
+        probs = []
+        if not X.is_name(b['_A0'], A.D):
+            probs.append('it is evaluated on `%s` instead of the sample dict `%s` it is stored into: values of the other variables of '
+                         'the same sample are not what the formula sees' % (short(b['_A0']), A.D))
+        roles = {'_A1': 'functions', '_A2': 'suffixes'}
+        for k, want in roles.items():
+            if not X.is_name(b[k], want):
+                if isinstance(b[k], ast.Name) and b[k].id in ('functions', 'suffixes', 'constants', 'sample_from', 'symbols'):
+                    probs.append('`%s` is passed where `%s` belongs' % (b[k].id, want))
+                else:
+                    raise AnalysisError('compute_sample argument not recognised: %s' % short(b[k]))
+        r.check(not probs, construct, short(st, 100), '; '.join(probs), lib.loc(fi, st),
+                expected='sample_dict[symbol] = sample_from[symbol].compute_sample(sample_dict, functions, suffixes)')
+        S = b['_S']
+        # the loop providing (symbol, dependencies) from the pending dict
+        loop = X.enclosing_loop(st)
+        deps = None
+        if isinstance(loop, ast.For) and isinstance(loop.target, ast.Tuple) and len(loop.target.elts) == 2 \
+                and X.mentions(loop.iter, A.W) and 'items' in unparse(loop.iter) and nf.equal(loop.target.elts[0], S) \
+                and isinstance(loop.target.elts[1], ast.Name):
+            deps = loop.target.elts[1].id
+        construct = 'gen_symbols_samples: a dependent is computed only when all its depends are in the sample'
+        guard = None
+        p = parent(st)
+        while p is not None and p is not loop:
+            if isinstance(p, ast.If) and any(nf.callee_name(x) == 'is_subset' for x in ast.walk(p.test) if isinstance(x, ast.Call)) \
+                    and any(st is s or X.in_subtree(st, s) for s in p.body):
+                guard = p
+            p = parent(p)
+        if guard is None:
+            r.violation(construct, 'the compute_sample call is not controlled by an is_subset(...) test: dependents are evaluated in '
+                        'declaration order, before the values they depend on exist', lib.loc(fi, st),
+                        expected='if is_subset(dependencies, sample_dict):')
+        elif deps is None:
+            r.undecided(construct, 'loop over the pending dict not recognised', lib.loc(fi, guard))
+        else:
+            verdict(r, construct, nf.classify("is_subset(%s, %s)" % (deps, A.D), guard.test), lib.loc(fi, guard),
+                    short(guard.test), expected='is_subset(dependencies, sample_dict)',
+                    why='the test must ask whether the depends are contained in the sample, not the reverse')
+        # is_subset itself
         sub = idx.func('mitxgraders.sampling.is_subset')
-        G2 = Groups(r, sub.loc)
-        for a, b, want in (([], {}, True), (['x'], {}, False), (['x'], {'x': 1}, True), (['x', 'y'], {'x': 1}, False),
-                           (['y', 'x'], {'x': 1}, False), (['x', 'y'], {'y': 0, 'x': 0, 'z': 0}, True), ([], {'x': 1}, True),
-                           (['x', 'x'], {'x': None}, True), (['z'], {'x': 1, 'y': 2}, False)):
-            res = outcome(lambda: Interp(idx).call_function(sub, [list(a), dict(b)]))
-            G2.case('is_subset: true exactly when every dependency is already in the sample', res == ('ret', want),
-                    'is_subset(%r, %r)' % (a, sorted(b)), str(want), show(res))
-        G2.flush()
+        construct = 'is_subset: true exactly when every item is in the superset'
+        a, bname = sub.params[0], sub.params[1]
+        body = _body(sub.node.body)
+        done = False
+        if len(body) == 1 and isinstance(body[0], ast.Return):
+            for ptn in ("all(_X in %s for _X in %s)" % (bname, a), "all([_X in %s for _X in %s])" % (bname, a), "set(%s) <= set(%s)" % (a, bname),
+                        "set(%s).issubset(%s)" % (a, bname)):
+                if X.m(ptn, body[0].value) is not None:
+                    r.ok(construct, short(body[0].value), sub.loc)
+                    done = True
+                    break
+        elif len(body) == 2 and isinstance(body[0], ast.For) and isinstance(body[1], ast.Return) and X.is_name(body[0].iter, a) \
+                and isinstance(body[0].target, ast.Name) and not body[0].orelse:
+            inner = _body(body[0].body)
+            if len(inner) == 1 and isinstance(inner[0], ast.If) and not inner[0].orelse:
+                rets = _body(inner[0].body)
+                if len(rets) == 1 and isinstance(rets[0], ast.Return) and isinstance(rets[0].value, ast.Constant) \
+                        and isinstance(body[1].value, ast.Constant):
+                    res = nf.classify("%s not in %s" % (body[0].target.id, bname), inner[0].test)
+                    early, final = rets[0].value.value, body[1].value.value
+                    if res == nf.MATCH and early is False and final is True:
+                        r.ok(construct, 'for/if-not-in/return False; return True', sub.loc)
+                    elif res == nf.MATCH:
+                        r.violation(construct, 'returns %r for a missing item and %r otherwise' % (early, final), sub.loc)
+                    elif isinstance(res, tuple):
+                        r.violation(construct, res[1] + ': is_subset answers the opposite question, dependents are computed exactly when '
+                                    'something they need is missing', lib.loc(sub, inner[0]), expected='if item not in iterable_superset: return False')
+                    else:
+                        r.undecided(construct, 'test not recognised: %s' % short(inner[0].test), sub.loc)
+                    done = True
+        if not done:
+            r.undecided(construct, 'body not recognised', sub.loc)
 
 
 # ----------------------------------------------------------------------------- D4
-class CalcModel(Model):
-    """Stands for the parser and the evaluator."""
-    intercept = (EVALUATOR, PARSE)
-
-    def __init__(self, idx, parse_fails=None, eval_fails=None):
-        self.idx = idx
-        self.parse_fails = parse_fails
-        self.eval_fails = eval_fails
-        self.events = []
-        self.VALUE = Sym('VALUE')
-
-    def global_name(self, name, module):
-        if name == 'super':
-            return Native(lambda *a: Sym('super-proxy', kind='super', args=a), 'super')
-        return NotImplemented
-
-    def attr(self, obj, attr, node, interp):
-        if isinstance(obj, Sym) and obj.data.get('kind') == 'super' and attr == '__init__':
-            target = obj.data['args'][1]
-
-            def init(config=None, **kwargs):
-                cfg = dict(config if config else kwargs)
-                cfg.setdefault('depends', None)
-                target.fields['config'] = cfg
-            return Native(init, 'ObjectWithSchema.__init__')
-        if isinstance(obj, Sym) and obj.data.get('kind') == 'parsed':
-            if attr in obj.data:
-                return obj.data[attr]
-        return Model.attr(self, obj, attr, node, interp)
-
-    def call(self, f, args, kwargs, node, interp):
-        q = f.fi.qualname if isinstance(f, FuncRef) else None
-        if q == PARSE:
-            self.events.append(('parse', args[0] if args else kwargs.get('formula')))
-            if self.parse_fails:
-                raise Raised(self.parse_fails, ['cannot parse'])
-            return Sym('parsed', kind='parsed', variables_used={'x', 'y'}, functions_used={'sin'}, suffixes_used=set())
-        if q == EVALUATOR:
-            params = self.idx.func(EVALUATOR).params
-            bound = dict(zip(params, args))
-            bound.update(kwargs)
-            self.events.append(('evaluator', bound))
-            if self.eval_fails:
-                raise Raised(self.eval_fails, ['cannot evaluate'])
-            return (self.VALUE, Sym('usage'))
-        return Model.call(self, f, args, kwargs, node, interp)
+def _translation(r, idx, fi, call, construct):
+    """The call sits in a try whose handler covers CalcError and raises ConfigError on every path."""
+    tr = lib.enclosing_try(call)
+    if tr is None:
+        r.violation(construct, 'the call `%s` is not inside a try: a formula error reaches the student as a student-facing CalcError '
+                    'instead of a ConfigError' % short(call, 50), lib.loc(fi, call), expected='except CalcError: raise ConfigError')
+        return
+    cover = [h for h in tr.handlers if X.handler_covers(h, CALC_COVER)]
+    if not cover:
+        names = [n for h in tr.handlers for n in lib.handler_class_names(h)]
+        r.violation(construct, 'the handler covers %s, not CalcError: formula errors of the dependent sampler are not turned into '
+                    'ConfigError' % names, lib.loc(fi, tr), expected='except CalcError', found=', '.join(names))
+        return
+    ok, classes = X.body_raises(cover[0].body)
+    if not ok and not classes:
+        r.violation(construct, 'the CalcError handler does not raise: the error is swallowed', lib.loc(fi, cover[0]))
+    else:
+        r.check(ok and classes == {'ConfigError'}, construct, 'CalcError -> ConfigError',
+                'CalcError is translated to %s instead of ConfigError' % sorted(classes), lib.loc(fi, cover[0]), expected='ConfigError')
 
 
 def d4_dependent(ctx, idx):
     r = ctx.rule('D4.DEPENDENT', 'DependentSampler: depends come from the parsed formula, CalcError -> ConfigError, '
-                 'compute_sample evaluates the formula on the given sample, gen_sample raises', floor=5)
+                 'compute_sample evaluates the own formula on the given sample and returns the value, gen_sample raises', floor=6)
     with r:
         init = idx.func(DS + '.__init__')
+        fn = init.node
+        construct = "DependentSampler.__init__: config['depends'] = variables used by the parsed formula"
+        stores = [s for s in walk_own(fn) if isinstance(s, ast.Assign) and any(lib.is_config(t, 'depends') for t in s.targets)]
+        pcalls = [c for c in walk_own(fn) if isinstance(c, ast.Call) and nf.callee_name(c) == 'parse']
+        if not stores:
+            r.violation(construct, "config['depends'] is never overwritten: the author's (possibly incomplete or missing) list decides when "
+                        "the variable is computed, so it can be evaluated before the values it really uses", init.loc,
+                        expected="self.config['depends'] = list(parsed.variables_used)")
+        else:
+            val = lib.inline_locals(stores[0].value, fn)
+            src = X.copy_source(val) or val
+            if X.m("parse(self.config['formula']).variables_used", src) is not None:
+                r.ok(construct, short(val), lib.loc(init, stores[0]))
+            elif isinstance(src, ast.Attribute) and src.attr in ('functions_used', 'suffixes_used') and \
+                    X.m("parse(self.config['formula'])", src.value) is not None:
+                r.violation(construct, 'depends is taken from `.%s` of the parsed formula, not from the variables it uses' % src.attr,
+                            lib.loc(init, stores[0]), expected='.variables_used', found='.' + src.attr)
+            else:
+                r.undecided(construct, 'value not recognised: %s' % short(val), lib.loc(init, stores[0]))
+        if len(pcalls) == 1:
+            _translation(r, idx, init, pcalls[0], 'DependentSampler.__init__: a formula that does not parse raises ConfigError')
+        else:
+            r.undecided('DependentSampler.__init__: parse', 'expected one parse(...) call', init.loc)
         comp = idx.func(DS + '.compute_sample')
+        fn = comp.node
+        if comp.params != ['self', 'sample_dict', 'functions', 'suffixes']:
+            raise AnalysisError('compute_sample: signature changed: %s' % comp.params)
+        ev = [c for c in walk_own(fn) if isinstance(c, ast.Call) and nf.callee_name(c) == 'evaluator']
+        if len(ev) != 1:
+            raise AnalysisError('compute_sample: expected one evaluator call')
+        bound = X.bind_call(ev[0], idx.func(EVALUATOR).params)
+        want = {'formula': "self.config['formula']", 'variables': 'sample_dict', 'functions': 'functions', 'suffixes': 'suffixes'}
+        probs = []
+        for role, src in want.items():
+            got = bound.get(role)
+            if got is None:
+                probs.append('%s is not passed (the library default is used)' % role)
+            elif X.m(src, got) is None:
+                if any(X.m(o, got) is not None for o in want.values()) or isinstance(got, (ast.Dict, ast.Constant)) \
+                        or (isinstance(got, ast.Call) and X.copy_source(got) is None and not got.args):
+                    probs.append('%s=%s instead of %s' % (role, short(got), src))
+                elif X.copy_source(got) is not None and X.m(src, X.copy_source(got)) is not None:
+                    pass
+                else:
+                    raise AnalysisError('evaluator argument %s=%s not recognised' % (role, short(got)))
+        extra = set(bound) - set(want)
+        if extra:
+            raise AnalysisError('evaluator called with extra arguments %s' % sorted(extra))
+        r.check(not probs, 'DependentSampler.compute_sample: own formula evaluated on the given sample with the given functions/suffixes',
+                'argument roles', '; '.join(probs) + ': the dependent value is not the formula evaluated on the other values of the same sample',
+                lib.loc(comp, ev[0]), expected='evaluator(formula=self.config[formula], variables=sample_dict, functions=functions, suffixes=suffixes)')
+        _translation(r, idx, comp, ev[0], 'DependentSampler.compute_sample: CalcError from the evaluation raises ConfigError')
+        construct = 'DependentSampler.compute_sample: returns the value (first element of the evaluator result)'
+        rets = lib.returns_of(fn)
+        un = X.find_stmts(fn, "_V, _W = evaluator(*__)")
+        if len(rets) == 1 and un and isinstance(un[0][1]['_V'], ast.Name):
+            vname = un[0][1]['_V'].id
+            wname = un[0][1]['_W'].id if isinstance(un[0][1]['_W'], ast.Name) else None
+            if X.is_name(rets[0].value, vname):
+                r.ok(construct, '', lib.loc(comp, rets[0]))
+            elif wname and X.is_name(rets[0].value, wname):
+                r.violation(construct, 'the usage record (second element) is returned instead of the value', lib.loc(comp, rets[0]))
+            else:
+                r.undecided(construct, 'returned value not recognised', lib.loc(comp, rets[0]))
+        elif len(rets) == 1 and X.m("evaluator(*__)[0]", rets[0].value) is not None:
+            r.ok(construct, '', lib.loc(comp, rets[0]))
+        else:
+            r.undecided(construct, 'return not recognised', comp.loc)
         gen = idx.func(DS + '.gen_sample')
-        G = Groups(r, init.loc)
-        g = 'DependentSampler.__init__: depends is overwritten with the variables used by the parsed formula'
-        for given in (None, ['q'], ['x'], []):
-            model = CalcModel(idx)
-            obj = Obj(DS)
-            kw = {'formula': 'x+y'}
-            if given is not None:
-                kw['depends'] = list(given)
-            res = outcome(lambda: Interp(idx, model).call_function(init, [], kw, self_obj=obj))
-            dep = obj.fields.get('config', {}).get('depends')
-            ok = res[0] == 'ret' and isinstance(dep, list) and sorted(dep) == ['x', 'y'] and ('parse', 'x+y') in model.events
-            G.case(g, ok, 'DependentSampler(formula="x+y"%s) where the formula uses x and y' % (
-                '' if given is None else ', depends=%r' % given), "config['depends'] == ['x', 'y'] (in any order)",
-                show(res) if res[0] != 'ret' else "config['depends'] = %r" % (dep,))
-        g = 'DependentSampler.__init__: a formula that does not parse raises ConfigError'
-        for cls in (UNPARSE, 'mitxgraders.helpers.calc.exceptions.CalcError', 'mitxgraders.helpers.calc.exceptions.UnbalancedBrackets'):
-            model = CalcModel(idx, parse_fails=cls)
-            res = outcome(lambda: Interp(idx, model).call_function(init, [], {'formula': 'x+'}, self_obj=Obj(DS)))
-            G.case(g, res[0] == 'raise' and res[1] == 'ConfigError', 'parse raises %s' % _name(cls), 'ConfigError', show(res))
-        G.flush()
-        G = Groups(r, comp.loc)
-        g = 'DependentSampler.compute_sample: evaluates its own formula on the given sample and returns the value'
-        model = CalcModel(idx)
-        sample, FUNCS, SUFF = {'x': 1.0, 'y': 2.0}, {'sin': Sym('sin')}, {'%': 0.01}
-        obj = Obj(DS, fields={'config': {'formula': 'x+y', 'depends': ['x', 'y']}})
-        res = outcome(lambda: Interp(idx, model).call_function(comp, [sample, FUNCS, SUFF], self_obj=obj))
-        evs = [e[1] for e in model.events if e[0] == 'evaluator']
-        ok = res == ('ret', model.VALUE) and len(evs) == 1 and evs[0].get('formula') == 'x+y' and evs[0].get('variables') is sample \
-            and evs[0].get('functions') is FUNCS and evs[0].get('suffixes') is SUFF
-        G.case(g, ok, 'compute_sample({x, y}, functions, suffixes) with formula "x+y"',
-               'evaluator("x+y", variables=the sample, functions=functions, suffixes=suffixes)[0]',
-               show(res) + (' after evaluator(%s)' % ', '.join('%s=%s' % (k, _short(v, 40)) for k, v in sorted(evs[0].items()))
-                            if evs else ''))
-        g = 'DependentSampler.compute_sample: CalcError from the evaluation raises ConfigError'
-        for cls in (UNDEF, 'mitxgraders.helpers.calc.exceptions.CalcZeroDivisionError', 'mitxgraders.helpers.calc.exceptions.CalcError'):
-            model = CalcModel(idx, eval_fails=cls)
-            res = outcome(lambda: Interp(idx, model).call_function(comp, [dict(sample), FUNCS, SUFF], self_obj=obj))
-            G.case(g, res[0] == 'raise' and res[1] == 'ConfigError', 'evaluator raises %s' % _name(cls), 'ConfigError', show(res))
-        G.flush()
-        res = outcome(lambda: Interp(idx).call_function(gen, [], self_obj=Obj(DS, fields={'config': {'formula': 'x', 'depends': ['x']}})))
-        r.check(res[0] == 'raise', 'DependentSampler.gen_sample: always raises', 'raises %s' % (res[1] if res[0] == 'raise' else ''),
-                'gen_sample returns %s: a dependent variable sampled on its own is inconsistent with the rest of the sample'
-                % (_short(res[1]) if res[0] == 'ret' else '?'), gen.loc)
+        cfg = cfg_of(gen.node)
+        r.check(cfg.always_raises_from([cfg.entry]), 'DependentSampler.gen_sample: raises on every path', 'no path returns',
+                'gen_sample can return a value: a dependent variable sampled on its own is inconsistent with the rest of the sample', gen.loc)
 
 
 # ----------------------------------------------------------------------------- D5 (regex term)
@@ -592,29 +730,151 @@ def d5_regex(ctx, idx):
                 'start anchor present' if lead else 'applied with .%s' % method,
                 'the pattern %s is applied with .search and has no start anchor: xb_{1} is taken for an instance of b' % text,
                 where)
-        # (3) index language, on the literal part of the pattern with a concrete head
-        concrete = ''.join(p if isinstance(p, str) else 'Hd' for p in parts)
-        try:
-            compiled = re.compile(concrete)
-        except re.error as e:
-            raise AnalysisError('pattern does not compile: %s' % e)
-        apply_ = {'match': compiled.match, 'fullmatch': compiled.fullmatch, 'search': compiled.search}[method]
-        bad = []
-        for ix, want in INDEX_CASES:
-            got = apply_('Hd_{%s}' % ix) is not None
-            if got != want:
-                bad.append((ix, want))
-        r.check(not bad, 'numbered_vars_regexp: index is 0 or an optionally negative integer without leading zeros',
-                '%d index strings classified as the property needs' % len(INDEX_CASES),
-                'index %r is %s by %s but the property %s it (leading zeros, signs and non-digits are not part of a numbered '
-                'variable)' % ((bad[0][0], 'rejected' if bad[0][1] else 'accepted', text, 'accepts' if bad[0][1] else 'rejects')
-                               if bad else ('', '', '', '')), where, expected='-?[1-9][0-9]*|0')
+        # (3) the term between the head group and the end of the full-name group: `_{` INDEX `}`
+        construct = 'numbered_vars_regexp: index term is `_{` (-?[1-9][0-9]* | 0) `}`'
+        if not ok_struct:
+            # an alternation that splits the full-name group is a recognised defect
+            split = False
+            if len(core) == 1 and core[0][0] is sre_c.SUBPATTERN:
+                inner = list(core[0][1][3])
+                split = len(inner) == 1 and inner[0][0] is sre_c.BRANCH and not rx.is_intact_hole(inner[0])
+            elif len(core) == 1 and core[0][0] is sre_c.BRANCH and not rx.is_intact_hole(core[0]):
+                split = True
+            if split:
+                r.violation(construct, 'an unparenthesised `|` splits the pattern %s into alternatives: the index alternation is not '
+                            'enclosed in a group, so `_{`/`}` and the anchors apply to one alternative only' % text, where,
+                            expected='_{(?:-?[1-9][0-9]*|0)}', found=text)
+            else:
+                r.undecided(construct, 'not analysed (structure not recognised)', where)
+        else:
+            rest = list(core[0][1][3])[1:]
+            got = _index_term(rest)
+            if got is None:
+                r.undecided(construct, 'regex term after the heads not recognised in %s' % text, where)
+            elif got == INDEX_REFERENCE:
+                r.ok(construct, text, where)
+            else:
+                r.violation(construct, 'the term after the heads is %s, the property needs %s: %s' % (
+                    _show_term(got), _show_term(INDEX_REFERENCE), _index_hint(got)), where, expected='_{(?:-?[1-9][0-9]*|0)}', found=text)
 
 
-INDEX_CASES = [('0', True), ('1', True), ('9', True), ('10', True), ('12', True), ('105', True), ('900', True), ('-1', True),
-               ('-3', True), ('-12', True), ('-100', True), ('05', False), ('00', False), ('-0', False), ('-05', False),
-               ('01', False), ('', False), ('1a', False), ('a', False), ('--1', False), ('+1', False), ('1.0', False),
-               ('-', False), (' 1', False), ('1 ', False), ('1-', False), ('0x1', False)]
+DIGITS = frozenset('0123456789')
+INF_ = sre_c.MAXREPEAT
+
+
+def _charset(item):
+    """frozenset of characters a single-character regex item matches, or None."""
+    op, av = item
+    if op is sre_c.LITERAL:
+        return frozenset(chr(av))
+    if op is sre_c.IN:
+        out = set()
+        for o, a in av:
+            if o is sre_c.LITERAL:
+                out.add(chr(a))
+            elif o is sre_c.RANGE:
+                if a[1] - a[0] > 200:
+                    return None
+                out |= {chr(x) for x in range(a[0], a[1] + 1)}
+            elif o is sre_c.CATEGORY and a is sre_c.CATEGORY_DIGIT:
+                out |= DIGITS
+            else:
+                return None
+        return frozenset(out)
+    return None
+
+
+def _units(seq):
+    """[(lo, hi, charset)] for a sequence of single-character items with optional repeats, or None."""
+    out = []
+    for item in seq:
+        op, av = item
+        if op in (sre_c.MAX_REPEAT, sre_c.MIN_REPEAT):
+            lo, hi, sub = av
+            sub = list(sub)
+            if len(sub) != 1:
+                return None
+            cs = _charset(sub[0])
+            if cs is None:
+                return None
+            out.append((lo, hi, cs))
+        elif op is sre_c.SUBPATTERN and av[0] is None and not av[1] and not av[2]:
+            inner = _units(list(av[3]))
+            if inner is None:
+                return None
+            out.extend(inner)
+        else:
+            cs = _charset(item)
+            if cs is None:
+                return None
+            out.append((1, 1, cs))
+    return tuple(out)
+
+
+def _index_term(rest):
+    """Normal form of the items after the head group: (prefix units, frozenset of alternative unit tuples, suffix units)."""
+    br = [i for i, it in enumerate(rest) if it[0] is sre_c.BRANCH]
+    if len(br) > 1:
+        return None
+    if br:
+        i = br[0]
+        pre, post = _units(rest[:i]), _units(rest[i + 1:])
+        alts = [_units(list(a)) for a in rest[i][1][1]]
+        if pre is None or post is None or any(a is None for a in alts):
+            return None
+        return pre, frozenset(alts), post
+    u = _units(rest)
+    if u is None:
+        return None
+    # no alternation: prefix = leading literal units `_{`, suffix = trailing `}`
+    pre = tuple(x for x in u[:2] if x[:2] == (1, 1) and x[2] in (frozenset('_'), frozenset('{')))
+    post = tuple(x for x in u[-1:] if x[:2] == (1, 1) and x[2] == frozenset('}'))
+    return pre, frozenset([u[len(pre):len(u) - len(post)]]), post
+
+
+INDEX_REFERENCE = (((1, 1, frozenset('_')), (1, 1, frozenset('{'))),
+                   frozenset([((0, 1, frozenset('-')), (1, 1, frozenset('123456789')), (0, INF_, DIGITS)), ((1, 1, frozenset('0')),)]),
+                   ((1, 1, frozenset('}')),))
+
+
+def _show_units(u):
+    def cs(c):
+        if c == DIGITS:
+            return '[0-9]'
+        if c == frozenset('123456789'):
+            return '[1-9]'
+        return ''.join(sorted(c)) if len(c) == 1 else '[%s]' % ''.join(sorted(c))
+
+    def rep(lo, hi):
+        if (lo, hi) == (1, 1):
+            return ''
+        if (lo, hi) == (0, 1):
+            return '?'
+        if (lo, hi) == (0, INF_):
+            return '*'
+        if (lo, hi) == (1, INF_):
+            return '+'
+        return '{%s,%s}' % (lo, '' if hi == INF_ else hi)
+    return ''.join(cs(c) + rep(lo, hi) for lo, hi, c in u)
+
+
+def _show_term(t):
+    return '`%s(%s)%s`' % (_show_units(t[0]), '|'.join(sorted(_show_units(a) for a in t[1])), _show_units(t[2]))
+
+
+def _index_hint(got):
+    alts = got[1]
+    firsts = [a for a in alts if a]
+    if any(a and a[0][2] >= DIGITS and a[0][1] == INF_ for a in alts) or any(
+            len(a) >= 2 and a[0] == (0, 1, frozenset('-')) and '0' in a[1][2] and (len(a) > 2 or a[1][1] != 1) for a in alts):
+        return 'indices with leading zeros (b_{05}) are taken for numbered variables'
+    if not any(a and a[0] == (0, 1, frozenset('-')) for a in alts):
+        return 'negative indices (b_{-3}) are no longer numbered variables'
+    if ((1, 1, frozenset('0')),) not in alts:
+        return 'the index 0 is no longer accepted'
+    if got[0] != INDEX_REFERENCE[0] or got[2] != INDEX_REFERENCE[2]:
+        return 'the braces around the index differ'
+    return 'the accepted index strings differ'
 
 
 def _bound_to_call(fi, name, callee):
@@ -624,214 +884,334 @@ def _bound_to_call(fi, name, callee):
     return False
 
 
-# ----------------------------------------------------------------------------- D5 (behaviour)
+
+
+# ----------------------------------------------------------------------------- D5 (use of the pattern)
 def d5_numbered(ctx, idx):
-    r = ctx.rule('D5.NUMBERED', 'generate_variable_list adds exactly the well-formed numbered instances that are not declared '
-                 "variables, each with its head's sampler, and leaves the configuration alone", floor=5)
+    r = ctx.rule('D5.NUMBERED', "generate_variable_list: copies of the configured variables/samplers; only undeclared names are "
+                 "matched; group 1 is appended and given the sampler of group 2", floor=7)
     with r:
         fi = idx.func(MM + '.generate_variable_list')
-        G = Groups(r, fi.loc)
-        SX, SB, SC, S7 = Sym('sampler-x'), Sym('sampler-b'), Sym('sampler-Cat'), Sym('sampler-b_{7}')
-        declared = ['x', 'b_{7}', 'y1']
-        base_sf = {'x': SX, 'b': SB, 'Cat': SC, 'b_{7}': S7, 'y1': Sym('sampler-y1')}
-        good = {'b_{1}': 'b', 'b_{0}': 'b', 'b_{-3}': 'b', 'b_{12}': 'b', 'Cat_{17}': 'Cat', 'Cat_{-120}': 'Cat', 'b_{900}': 'b'}
-        bad = ['b_{05}', 'b_{-05}', 'b_{00}', 'b_{-0}', 'B_{0}', 'cat_{1}', 'c_{1}', 'bb_{1}', 'xb_{1}', "b_{1}'", 'b_{1}^{2}',
-               'b_1', 'b', 'Cat', 'b_{a}', 'b_{1a}', 'z', 'x_{1}', 'Catb_{1}', 'bCat_{1}', 'b_{}']
+        fn = fi.node
+        rets = lib.returns_of(fn)
+        if len(rets) != 1 or not (isinstance(rets[0].value, ast.Tuple) and len(rets[0].value.elts) == 2
+                                  and all(isinstance(e, ast.Name) for e in rets[0].value.elts)):
+            raise AnalysisError('generate_variable_list: expected `return variable_list, sample_from_dict`')
+        VL, SF = [e.id for e in rets[0].value.elts]
 
-        def run(used):
-            it = Interp(idx, Model(), max_steps=60000)
-            variables = list(declared)
-            sf = dict(base_sf)
-            cfg = {'variables': variables, 'sample_from': sf, 'numbered_vars': ['b', 'Cat']}
-            obj = Obj(MM, fields={'config': cfg}, stubs={'get_used_vars': Native(lambda exprs: set(used), 'get_used_vars')})
-            res = outcome(lambda: it.call_function(fi, [['the expressions']], self_obj=obj))
-            untouched = variables == declared and sf == base_sf and cfg['numbered_vars'] == ['b', 'Cat']
-            return res, untouched
+        def one_def(name):
+            d = [s for s in walk_own(fn) if isinstance(s, ast.Assign) and len(s.targets) == 1 and X.is_name(s.targets[0], name)]
+            if len(d) != 1:
+                raise AnalysisError('generate_variable_list: %d definitions of %s' % (len(d), name))
+            return d[0]
+        for name, key, label in ((VL, 'variables', 'variable list'), (SF, 'sample_from', 'sampler dict')):
+            st = one_def(name)
+            construct = "generate_variable_list: the %s starts as a copy of config['%s']" % (label, key)
+            src = X.copy_source(st.value)
+            if src is not None and lib.is_config(src, key):
+                r.ok(construct, short(st.value), lib.loc(fi, st))
+            elif lib.is_config(st.value, key):
+                r.violation(construct, "`%s = %s` is the configured object itself: numbered instances are added to the grader's "
+                            "configuration and are treated as declared variables by every later call" % (name, short(st.value)),
+                            lib.loc(fi, st), expected='a copy')
+            else:
+                r.undecided(construct, 'value not recognised: %s' % short(st.value), lib.loc(fi, st))
+        # the application of the pattern
+        uses = [c for c in walk_own(fn) if isinstance(c, ast.Call) and isinstance(c.func, ast.Attribute)
+                and c.func.attr in ('match', 'fullmatch', 'search') and isinstance(c.func.value, ast.Name)
+                and _bound_to_call(fi, c.func.value.id, 'numbered_vars_regexp')]
+        if len(uses) != 1:
+            raise AnalysisError('generate_variable_list: expected one application of the numbered-variable pattern')
+        use = uses[0]
+        rx_def = [v for v in lib.assigned_value(fn, use.func.value.id)]
+        r.check(len(rx_def) == 1 and X.m("numbered_vars_regexp(self.config['numbered_vars'])", rx_def[0]) is not None,
+                "generate_variable_list: the pattern is built from config['numbered_vars']", short(rx_def[0]) if rx_def else '',
+                'the pattern is built from `%s`' % (short(rx_def[0]) if rx_def else '?'), lib.loc(fi, use))
+        loop = X.enclosing_loop(use)
+        if not (isinstance(loop, ast.For) and isinstance(loop.target, ast.Name) and len(use.args) == 1
+                and X.is_name(use.args[0], loop.target.id) and isinstance(loop.iter, ast.Name)):
+            raise AnalysisError('generate_variable_list: the pattern is not applied to the elements of a loop over names')
+        # which names are tried
+        construct = 'generate_variable_list: only names that are not declared variables are tried'
+        bdef = one_def(loop.iter.id)
+        val = bdef.value
+        inner = val.args[0] if (isinstance(val, ast.Call) and isinstance(val.func, ast.Name) and val.func.id in ('set', 'list', 'sorted')
+                                and len(val.args) == 1) else val
+        if isinstance(inner, (ast.GeneratorExp, ast.ListComp, ast.SetComp)) and len(inner.generators) == 1 \
+                and isinstance(inner.generators[0].target, ast.Name):
+            g = inner.generators[0]
+            t = g.target.id
+            tests = [nf.canon(x) for x in g.ifs]
+            if len(tests) == 1 and X.any_match(["%s not in %s" % (t, VL), "%s not in self.config['variables']" % t], tests[0]) is not None:
+                r.ok(construct, short(val, 80), lib.loc(fi, bdef))
+            elif len(tests) == 1 and X.any_match(["%s in %s" % (t, VL)], tests[0]) is not None:
+                r.violation(construct, 'the filter is inverted: only declared variables are tried', lib.loc(fi, bdef))
+            elif not tests:
+                r.violation(construct, 'every used name is tried, including declared variables: a declared `b_{7}` is appended a second time '
+                            'and its own sampler is replaced by the sampler of `b`', lib.loc(fi, bdef))
+            else:
+                r.undecided(construct, 'filter not recognised: %s' % short(val), lib.loc(fi, bdef))
+        elif _is_all_used(fn, inner):
+            r.violation(construct, 'the pattern is tried on every used name (`%s`), including declared variables: a declared `b_{7}` is appended '
+                        'a second time and its own sampler is replaced by the sampler of `b`' % short(val), lib.loc(fi, bdef),
+                        expected='names not in the variable list')
+        else:
+            r.undecided(construct, 'definition not recognised: %s' % short(val), lib.loc(fi, bdef))
+        # groups -> roles
+        mst = lib.enclosing_stmt(use)
+        if not (isinstance(mst, ast.Assign) and len(mst.targets) == 1 and isinstance(mst.targets[0], ast.Name)):
+            raise AnalysisError('generate_variable_list: match result not bound to a name')
+        M = mst.targets[0].id
+        un = X.find_stmts(loop, "_G1, _G2 = %s.groups()" % M, own=False)
+        if len(un) != 1 or not all(isinstance(un[0][1][k], ast.Name) for k in ('_G1', '_G2')):
+            raise AnalysisError('generate_variable_list: `(full, head) = match.groups()` not found')
+        G1, G2 = un[0][1]['_G1'].id, un[0][1]['_G2'].id
+        gst = un[0][0]
+        guard = parent(gst)
+        okg = isinstance(guard, ast.If) and any(gst is s for s in guard.body) and X.any_match([M, "%s is not None" % M], guard.test) is not None
+        r.check(okg, 'generate_variable_list: groups are read only when the name matched', 'if match:',
+                'match.groups() is evaluated without testing the match (AttributeError on None for ordinary undeclared names)',
+                lib.loc(fi, gst))
+        construct = 'generate_variable_list: the full name (group 1) is added to the variable list'
+        apps = X.find_stmts(loop, "%s.append(_A)" % VL, own=False)
+        if not apps:
+            r.violation(construct, 'nothing is appended to the variable list: numbered instances get no sample', lib.loc(fi, loop))
+        else:
+            a = apps[0][1]['_A']
+            if X.is_name(a, G1):
+                r.ok(construct, short(apps[0][0]), lib.loc(fi, apps[0][0]))
+            elif X.is_name(a, G2):
+                r.violation(construct, 'group 2 (the head, e.g. `b`) is appended instead of group 1 (the full name, e.g. `b_{3}`): the '
+                            'instance that occurs in the expressions gets no value', lib.loc(fi, apps[0][0]), expected=G1, found=G2)
+            else:
+                r.undecided(construct, 'appended value not recognised: %s' % short(a), lib.loc(fi, apps[0][0]))
+        construct = "generate_variable_list: the instance is sampled from its head's sampling set"
+        stores = X.find_stmts(loop, "%s[_K] = _V" % SF, own=False)
+        if not stores:
+            r.violation(construct, 'no sampler is registered for the numbered instance: gen_symbols_samples fails with KeyError', lib.loc(fi, loop))
+        else:
+            k, v = stores[0][1]['_K'], stores[0][1]['_V']
+            probs = []
+            if X.is_name(k, G2):
+                probs.append('the sampler is stored under the head `%s` instead of the full name' % G2)
+            elif not X.is_name(k, G1):
+                raise AnalysisError('key of the sampler store not recognised: %s' % short(k))
+            vb = X.any_match(["%s[_H]" % SF, "self.config['sample_from'][_H]"], v)
+            if vb is None:
+                if isinstance(v, ast.Call):
+                    probs.append('a new sampler `%s` is used instead of the sampling set of the head' % short(v))
+                else:
+                    raise AnalysisError('sampler value not recognised: %s' % short(v))
+            elif X.is_name(vb['_H'], G1):
+                probs.append('the sampler is looked up under the full name (group 1), which has none, instead of the head (group 2)')
+            elif not X.is_name(vb['_H'], G2):
+                probs.append('the sampler is looked up under `%s` instead of the head of this instance' % short(vb['_H']))
+            r.check(not probs, construct, short(stores[0][0]), '; '.join(probs), lib.loc(fi, stores[0][0]),
+                    expected='%s[%s] = %s[%s]' % (SF, G1, SF, G2))
 
-        def judge(used, res, untouched):
-            want_new = sorted(v for v in used if v in good)
-            if res[0] != 'ret' or not (isinstance(res[1], tuple) and len(res[1]) == 2):
-                return 'variables %s + %s' % (declared, want_new), show(res)
-            vl, sfd = res[1]
-            if not isinstance(vl, list) or not isinstance(sfd, dict):
-                return '(list, dict)', show(res)
-            if sorted(vl) != sorted(declared + want_new):
-                return 'variable list %s' % sorted(declared + want_new), 'variable list %s' % sorted(vl)
-            for v in want_new:
-                if sfd.get(v) is not base_sf[good[v]]:
-                    return 'sample_from[%s] is the sampling set of %s' % (v, good[v]), 'sample_from[%s] = %r' % (v, sfd.get(v))
-            for k, v in base_sf.items():
-                if sfd.get(k) is not v:
-                    return 'declared samplers unchanged', 'sample_from[%s] = %r' % (k, sfd.get(k))
-            if set(sfd) != set(base_sf) | set(want_new):
-                return 'sample_from keys %s' % sorted(set(base_sf) | set(want_new)), 'keys %s' % sorted(sfd)
-            if not untouched:
-                return "config['variables'] and config['sample_from'] unchanged", 'the configuration was modified'
-            return None
-        g_good = 'generate_variable_list: well-formed numbered instances are added with the sampler of their head'
-        for v in sorted(good):
-            used = {'x', v}
-            res, untouched = run(used)
-            verdict = judge(used, res, untouched)
-            G.case(g_good, verdict is None, 'expressions use %s (numbered_vars b, Cat)' % sorted(used),
-                   verdict[0] if verdict else '', verdict[1] if verdict else '')
-        used = set(good) | {'x'}
-        res, untouched = run(used)
-        verdict = judge(used, res, untouched)
-        G.case(g_good, verdict is None, 'expressions use all of %s' % sorted(used), verdict[0] if verdict else '', verdict[1] if verdict else '')
-        g_bad = 'generate_variable_list: names that are not well-formed numbered instances are not added'
-        for v in bad:
-            used = {'x', v}
-            res, untouched = run(used)
-            verdict = judge(used, res, untouched)
-            G.case(g_bad, verdict is None, 'expressions use %s (numbered_vars b, Cat)' % sorted(used),
-                   verdict[0] if verdict else '', verdict[1] if verdict else '')
-        g_decl = 'generate_variable_list: a declared variable that looks like a numbered instance keeps its own sampler, once'
-        for used in ({'b_{7}'}, {'b_{7}', 'b_{1}', 'x'}):
-            res, untouched = run(used)
-            verdict = judge(used, res, untouched)
-            G.case(g_decl, verdict is None, 'expressions use %s; b_{7} is declared with its own sampler' % sorted(used),
-                   verdict[0] if verdict else '', verdict[1] if verdict else '')
-        g_cfg = 'generate_variable_list: the configured variables and sample_from are copied, not extended in place'
-        res, untouched = run({'b_{1}', 'Cat_{2}'})
-        G.case(g_cfg, res[0] == 'ret' and untouched, 'expressions use b_{1} and Cat_{2}', "config untouched after the call",
-               show(res) if res[0] != 'ret' else 'the configuration now contains the numbered instances (a later call sees them as declared)')
-        g_none = 'generate_variable_list: without numbered instances the declared variables are returned'
-        res, untouched = run({'x', 'y1'})
-        verdict = judge({'x', 'y1'}, res, untouched)
-        G.case(g_none, verdict is None, 'expressions use x, y1', verdict[0] if verdict else '', verdict[1] if verdict else '')
-        G.flush()
+
+def _is_all_used(fn, e, depth=0):
+    """e denotes all variables used in the expressions: self.get_used_vars(...) possibly through names / set() / list()."""
+    if depth > 4:
+        return False
+    if isinstance(e, ast.Call) and nf.callee_name(e) == 'get_used_vars':
+        return True
+    if isinstance(e, ast.Call) and isinstance(e.func, ast.Name) and e.func.id in ('set', 'list', 'sorted', 'tuple') and len(e.args) == 1:
+        return _is_all_used(fn, e.args[0], depth + 1)
+    if isinstance(e, ast.Name):
+        vals = lib.assigned_value(fn, e.id)
+        return len(vals) == 1 and _is_all_used(fn, vals[0], depth + 1)
+    return False
 
 
 # ----------------------------------------------------------------------------- D6
 def d6_constants(ctx, idx):
-    r = ctx.rule('D6.CONSTANTS', 'construct_constants returns a new dict: the defaults overridden by the user constants', floor=2)
+    r = ctx.rule('D6.CONSTANTS', 'construct_constants returns a copy of the defaults overridden by the user constants', floor=4)
     with r:
         fi = idx.func('mitxgraders.sampling.construct_constants')
-        G = Groups(r, fi.loc)
-        g1 = 'construct_constants: defaults plus user constants, user entries win'
-        g2 = 'construct_constants: neither argument is modified and a new dict is returned'
-        for defaults, user in (({'i': 1j, 'pi': 3.14, 'e': 2.718}, {}), ({'i': 1j, 'pi': 3.14}, {'T': 1.5}),
-                               ({'i': 1j, 'pi': 3.14}, {'pi': 3, 'tau': 6.28}), ({}, {'a': 1}), ({'i': 1j}, {'i': 'I'})):
-            d, u = dict(defaults), dict(user)
-            res = outcome(lambda: Interp(idx).call_function(fi, [d, u]))
-            want = dict(defaults)
-            want.update(user)
-            G.case(g1, res == ('ret', want), 'defaults %s, user constants %s' % (defaults, user), repr(want), show(res))
-            G.case(g2, res[0] == 'ret' and d == defaults and u == user and res[1] is not d and res[1] is not u,
-                   'defaults %s, user constants %s' % (defaults, user), 'arguments unchanged, fresh dict',
-                   show(res) if res[0] != 'ret' else ('defaults now %s' % d if d != defaults else
-                                                      ('the defaults dict itself is returned' if res[1] is d else 'user dict touched')))
-        G.flush()
-        # the use in validate_math_config
+        fn = fi.node
+        if fi.params != ['default_variables', 'user_consts']:
+            raise AnalysisError('construct_constants: signature changed: %s' % fi.params)
+        rets = lib.returns_of(fn)
+        if len(rets) != 1:
+            raise AnalysisError('construct_constants: expected one return')
+        if not isinstance(rets[0].value, ast.Name):
+            # e.g. dict(default_variables, **user_consts) / {**default_variables, **user_consts}
+            v = rets[0].value
+            if X.any_match(["dict(default_variables, **user_consts)", "merge_dicts(default_variables, user_consts)"], v) is not None or (
+                    isinstance(v, ast.Dict) and all(k is None for k in v.keys) and [unparse(x) for x in v.values] == ['default_variables', 'user_consts']):
+                r.ok('construct_constants: defaults then user constants', short(v), lib.loc(fi, rets[0]))
+                r.ok('construct_constants: a new dict is returned', short(v), lib.loc(fi, rets[0]))
+                r.ok('construct_constants: user entries win', short(v), lib.loc(fi, rets[0]))
+                return
+            raise AnalysisError('construct_constants: return value not recognised')
+        C = rets[0].value.id
+        defs = [s for s in walk_own(fn) if isinstance(s, ast.Assign) and len(s.targets) == 1 and X.is_name(s.targets[0], C)]
+        if len(defs) != 1:
+            raise AnalysisError('construct_constants: base dict not uniquely defined')
+        base = defs[0].value
+        src = X.copy_source(base)
+        construct = 'construct_constants: a new dict is returned'
+        if isinstance(base, ast.Name):
+            r.violation(construct, '`%s = %s` is no copy: the shared table of default constants is modified by every grader with user '
+                        'constants' % (C, base.id), lib.loc(fi, defs[0]), expected='%s.copy()' % base.id)
+            src = base
+        elif src is None:
+            raise AnalysisError('construct_constants: base value not recognised: %s' % short(base))
+        else:
+            r.ok(construct, short(base), lib.loc(fi, defs[0]))
+        # merge
+        merged = None
+        how = None
+        for st, b in X.find_stmts(fn, "%s.update(_Y)" % C):
+            merged, how, mst = b['_Y'], 'update', st
+        for lp in [l for l in walk_own(fn) if isinstance(l, ast.For) and isinstance(l.target, ast.Name)]:
+            t = lp.target.id
+            for st in _body(lp.body):
+                b1 = X.m(X.spat("%s[%s] = _Y[%s]" % (C, t, t)), st)
+                if b1 is not None and isinstance(b1['_Y'], ast.Name) and X.is_name(lp.iter, b1['_Y'].id):
+                    merged, how, mst = lp.iter, 'store', st
+                b2 = X.m(X.spat("%s.setdefault(%s, _Y[%s])" % (C, t, t)), st)
+                if b2 is not None and isinstance(b2['_Y'], ast.Name) and X.is_name(lp.iter, b2['_Y'].id):
+                    merged, how, mst = lp.iter, 'setdefault', st
+        construct = 'construct_constants: defaults then user constants'
+        if merged is None:
+            r.violation(construct, 'nothing is merged into the copy: user constants are ignored', fi.loc)
+            return
+        if X.is_name(src, 'default_variables') and X.is_name(merged, 'user_consts'):
+            r.ok(construct, 'base = defaults, merged = user constants', lib.loc(fi, mst))
+            win = how != 'setdefault'
+        elif X.is_name(src, 'user_consts') and X.is_name(merged, 'default_variables'):
+            r.ok(construct, 'base = user constants, merged = defaults', lib.loc(fi, mst))
+            win = how == 'setdefault'
+        else:
+            raise AnalysisError('construct_constants: merge of `%s` into a copy of `%s` not recognised' % (short(merged), short(src)))
+        r.check(win, 'construct_constants: user entries win', how,
+                "with `%s` the default value wins when the user redefines a constant (e.g. a user constant `pi` or `T` colliding with a "
+                "default is ignored)" % short(mst), lib.loc(fi, mst), expected='constants[var] = user_consts[var]')
         vm = idx.func(MM + '.validate_math_config')
-        hits = nf.find_all(nf.pat("self.constants = construct_constants(self.default_variables, self.config['user_constants'])",
-                                  mode='exec')[0], vm.node)
+        hits = X.find_stmts(vm.node, "self.constants = construct_constants(self.default_variables, self.config['user_constants'])")
         r.check(bool(hits), 'MathMixin.validate_math_config: self.constants', 'construct_constants(default_variables, user_constants)',
                 "self.constants is no longer construct_constants(self.default_variables, self.config['user_constants'])", vm.loc)
 
 
-class SiblingModel(Model):
-    intercept = (GSS,)
-
-    def __init__(self):
-        self.calls = []
-        self.results = [Sym('VAR-SAMPLES'), Sym('FUNC-SAMPLES')]
-
-    def call(self, f, args, kwargs, node, interp):
-        if isinstance(f, FuncRef) and f.fi.qualname == GSS:
-            params = f.fi.params
-            bound = dict(zip(params, args))
-            bound.update(kwargs)
-            bound = {k: (list(v) if isinstance(v, list) else dict(v) if isinstance(v, dict) else v) for k, v in bound.items()}
-            raw = dict(zip(params, args))
-            raw.update(kwargs)
-            self.calls.append((bound, raw))
-            return self.results[min(len(self.calls) - 1, 1)]
-        if isinstance(f, ClassRef) and f.qualname == DS:
-            cfg = dict(kwargs) if kwargs else dict(args[0] if args else {})
-            return Obj(DS, fields={'config': cfg})
-        return Model.call(self, f, args, kwargs, node, interp)
-
-
 def d6_siblings(ctx, idx):
-    r = ctx.rule('D6.SIBLINGS', 'gen_var_and_func_samples adds sibling formulas as DependentSamplers, refuses empty siblings with '
-                 'MissingInput and passes every argument of gen_symbols_samples in its role', floor=5)
+    r = ctx.rule('D6.SIBLINGS', 'gen_var_and_func_samples: siblings declared, empty ones refused (MissingInput) before '
+                 'DependentSampler(formula=<theirs>); all expressions searched; argument roles of gen_symbols_samples', floor=8)
     with r:
         fi = idx.func(MM + '.gen_var_and_func_samples')
-        G = Groups(r, fi.loc)
-        SX = Sym('sampler-x')
-
-        def run(args):
-            model = SiblingModel()
-            it = Interp(idx, model, max_steps=60000)
-            seen = []
-
-            def gvl(expressions):
-                seen.append(list(expressions))
-                return (['x'], {'x': SX})
-            FUNCS, SUFF, CONST, RF = {'sin': Sym('sin')}, {'%': 0.01}, {'pi': 3.14}, {'f': Sym('random-f'), 'g': Sym('random-g')}
-            obj = Obj(MM, fields={'config': {'samples': 5}, 'functions': FUNCS, 'suffixes': SUFF, 'constants': CONST,
-                                  'random_funcs': RF}, stubs={'generate_variable_list': Native(gvl, 'generate_variable_list')})
-            res = outcome(lambda: it.call_function(fi, list(args), self_obj=obj))
-            return res, model, seen, (FUNCS, SUFF, CONST, RF)
-        sib = {'sibling_1': 'x^2', 'sibling_2': 'sibling_1+1'}
-        res, model, seen, (FUNCS, SUFF, CONST, RF) = run(['x+1', ['2*x', 'x/3'], sib])
-        g = 'gen_var_and_func_samples: every expression (strings, list entries, dict values) is searched for variables'
-        ok = res[0] == 'ret' and len(seen) == 1 and sorted(seen[0]) == sorted(['x+1', '2*x', 'x/3', 'x^2', 'sibling_1+1'])
-        G.case(g, ok, "arguments 'x+1', ['2*x', 'x/3'], {sibling_1: 'x^2', sibling_2: 'sibling_1+1'}",
-               'generate_variable_list([x+1, 2*x, x/3, x^2, sibling_1+1])', show(res) if not seen else 'generate_variable_list(%s)' % seen[0])
-        g = 'gen_var_and_func_samples: sibling formulas become dependent variables'
-        ok = res[0] == 'ret' and len(model.calls) == 2
-        found = show(res)
-        if ok:
-            b = model.calls[0][0]
-            sf = b.get('sample_from', {})
-            ok = sorted(b.get('symbols', [])) == ['sibling_1', 'sibling_2', 'x'] and sf.get('x') is SX and all(
-                isinstance(sf.get(k), Obj) and sf[k].cls == DS and sf[k].fields['config'].get('formula') == v for k, v in sib.items())
-            found = 'symbols %s, samplers %s' % (b.get('symbols'), {k: (v.fields['config'] if isinstance(v, Obj) else v) for k, v in sf.items()})
-        G.case(g, ok, 'siblings %s' % sib, "symbols x, sibling_1, sibling_2 with DependentSampler(formula=<the sibling's formula>)", found)
-        g = 'gen_var_and_func_samples: variables are sampled with the configured count and the grader\'s functions, suffixes and constants'
-        ok = res[0] == 'ret' and len(model.calls) == 2
-        if ok:
-            raw = model.calls[0][1]
-            ok = raw.get('samples') == 5 and raw.get('functions') is FUNCS and raw.get('suffixes') is SUFF and raw.get('constants') is CONST
-            found = 'samples=%r, functions=%s, suffixes=%s, constants=%s' % (
-                raw.get('samples'), _which(raw.get('functions'), FUNCS, SUFF, CONST), _which(raw.get('suffixes'), FUNCS, SUFF, CONST),
-                _which(raw.get('constants'), FUNCS, SUFF, CONST))
-        G.case(g, ok, 'first call of gen_symbols_samples', 'samples=5, functions=self.functions, suffixes=self.suffixes, constants=self.constants', found)
-        g = 'gen_var_and_func_samples: random functions are sampled likewise, without constants'
-        ok = res[0] == 'ret' and len(model.calls) == 2
-        if ok:
-            b, raw = model.calls[1]
-            ok = sorted(b.get('symbols', [])) == ['f', 'g'] and raw.get('samples') == 5 and raw.get('sample_from') is RF \
-                and raw.get('functions') is FUNCS and raw.get('suffixes') is SUFF and raw.get('constants') == {}
-            found = 'symbols %s, samples=%r, sample_from=%s, constants=%r' % (b.get('symbols'), raw.get('samples'),
-                                                                              'random_funcs' if raw.get('sample_from') is RF else _short(raw.get('sample_from'), 60),
-                                                                              raw.get('constants'))
-        G.case(g, ok, 'second call of gen_symbols_samples', 'symbols [f, g], samples=5, sample_from=self.random_funcs, constants={}', found)
-        g = 'gen_var_and_func_samples: returns (variable samples, function samples)'
-        G.case(g, res[0] == 'ret' and isinstance(res[1], tuple) and len(res[1]) == 2 and res[1][0] is model.results[0]
-               and res[1][1] is model.results[1], 'any arguments', '(VAR-SAMPLES, FUNC-SAMPLES)', show(res))
-        g = 'gen_var_and_func_samples: an empty sibling formula raises MissingInput'
-        for s in ({'sibling_1': ''}, {'sibling_1': 'x', 'sibling_2': ''}):
-            res2, model2, _, _ = run(['x+1', s])
-            G.case(g, res2[0] == 'raise' and res2[1] == 'MissingInput', 'siblings %s' % s, 'MissingInput', show(res2))
-        g = 'gen_var_and_func_samples: dicts that are not sibling dicts only contribute expressions'
-        res3, model3, seen3, _ = run([{'expect': 'x+1', 'other': 'x'}, 'x'])
-        ok = res3[0] == 'ret' and len(model3.calls) == 2 and model3.calls[0][0].get('symbols') == ['x']
-        G.case(g, ok, "arguments {expect: 'x+1', other: 'x'}, 'x'", 'symbols [x]', show(res3) if not model3.calls else 'symbols %s' % model3.calls[0][0].get('symbols'))
-        G.flush()
-
-
-def _which(v, FUNCS, SUFF, CONST):
-    if v is FUNCS:
-        return 'self.functions'
-    if v is SUFF:
-        return 'self.suffixes'
-    if v is CONST:
-        return 'self.constants'
-    return _short(v, 40)
+        fn = fi.node
+        gv = [s for s, b in X.find_stmts(fn, "_VARS, _SF = self.generate_variable_list(_E)")]
+        if len(gv) != 1:
+            raise AnalysisError('gen_var_and_func_samples: `variables, sample_from = self.generate_variable_list(expressions)` not found')
+        b = X.m(X.spat("_VARS, _SF = self.generate_variable_list(_E)"), gv[0])
+        if not all(isinstance(b[k], ast.Name) for k in ('_VARS', '_SF', '_E')):
+            raise AnalysisError('gen_var_and_func_samples: names not plain')
+        VARS, SF, EX = b['_VARS'].id, b['_SF'].id, b['_E'].id
+        # expressions: str / list / dict values
+        construct = 'gen_var_and_func_samples: expressions inside dict arguments are searched for variables too'
+        branches = [s for s in walk_own(fn) if isinstance(s, ast.If) and X.m("isinstance(_X, dict)", s.test) is not None
+                    and X.enclosing_loop(s) is not None and not X.in_subtree(gv[0], X.enclosing_loop(s))
+                    and X.dominates(fi, X.enclosing_loop(s), gv[0])]
+        ext = False
+        for s in branches:
+            for x in ast.walk(ast.Module(body=s.body, type_ignores=[])):
+                if isinstance(x, ast.AugAssign) and X.is_name(x.target, EX) and ('values' in unparse(x.value) or 'items' in unparse(x.value)):
+                    ext = True
+                if isinstance(x, ast.Call) and isinstance(x.func, ast.Attribute) and x.func.attr in ('extend', 'append') \
+                        and X.is_name(x.func.value, EX):
+                    ext = True
+        if not branches:
+            r.undecided(construct, 'no isinstance(entry, dict) branch before generate_variable_list', fi.loc)
+        else:
+            r.check(ext, construct, 'dict values are added to the expressions',
+                    'the dict branch no longer adds the values to `%s`: variables (incl. numbered ones) that occur only in sibling or '
+                    'answer dicts get no sample' % EX, lib.loc(fi, branches[0]))
+        # sibling loop
+        ds = [c for c in walk_own(fn) if isinstance(c, ast.Call) and nf.callee_name(c) == 'DependentSampler']
+        if len(ds) != 1:
+            raise AnalysisError('gen_var_and_func_samples: expected one DependentSampler(...) construction')
+        dst = lib.enclosing_stmt(ds[0])
+        loop = X.enclosing_loop(dst)
+        if not (isinstance(loop, ast.For) and isinstance(loop.target, ast.Name) and isinstance(loop.iter, ast.Name)):
+            raise AnalysisError('gen_var_and_func_samples: sibling loop not recognised')
+        K, E = loop.target.id, loop.iter.id
+        construct = 'gen_var_and_func_samples: a sibling becomes DependentSampler(formula=<its formula>) under its own name'
+        sb = X.m(X.spat("%s[_KEY] = DependentSampler(formula=_F)" % SF), dst)
+        if sb is None:
+            sb = X.m(X.spat("%s[_KEY] = DependentSampler({'formula': _F})" % SF), dst)
+        if sb is None:
+            r.undecided(construct, 'statement not recognised: %s' % short(dst), lib.loc(fi, dst))
+        else:
+            probs = []
+            if not X.is_name(sb['_KEY'], K):
+                probs.append('stored under `%s`' % short(sb['_KEY']))
+            if X.m("%s[%s]" % (E, K), sb['_F']) is None:
+                if X.is_name(sb['_F'], K):
+                    probs.append('the formula is the sibling\'s *name* `%s` instead of its formula %s[%s] (a self-reference, reported as circular)' % (K, E, K))
+                else:
+                    raise AnalysisError('sibling formula not recognised: %s' % short(sb['_F']))
+            r.check(not probs, construct, short(dst), '; '.join(probs), lib.loc(fi, dst), expected='%s[%s] = DependentSampler(formula=%s[%s])' % (SF, K, E, K))
+        construct = 'gen_var_and_func_samples: every sibling is declared as a variable'
+        apps = X.find_stmts(loop, "%s.append(%s)" % (VARS, K), own=False)
+        r.check(bool(apps), construct, '%s.append(%s)' % (VARS, K),
+                'siblings are not added to the variable list: they get a sampler but no value, so sibling references are undefined',
+                lib.loc(fi, loop))
+        construct = 'gen_var_and_func_samples: an empty sibling raises MissingInput before its sampler is built'
+        tests = [s for s in ast.walk(loop) if isinstance(s, ast.If) and any(isinstance(x, ast.Raise) for x in ast.walk(s))]
+        if not tests:
+            r.violation(construct, 'no check for an empty sibling: DependentSampler(formula="") is built and the student gets a configuration '
+                        'error instead of "a required input is missing"', lib.loc(fi, loop), expected="if entry[k] == '': raise MissingInput")
+        else:
+            t = tests[0]
+            res = nf.classify(["%s[%s] == ''" % (E, K), "not %s[%s]" % (E, K)], t.test)
+            verdict(r, construct, res, lib.loc(fi, t), short(t.test), expected="entry[k] == ''")
+            ok, classes = X.body_raises(t.body)
+            r.check(ok and classes == {'MissingInput'} and X.dominates(fi, t, dst), construct + ' [class, order]', 'MissingInput, before DependentSampler',
+                    'the check raises %s / does not precede the construction of the sampler' % (sorted(classes) or 'nothing'), lib.loc(fi, t))
+        # gen_symbols_samples calls
+        calls = lib.calls_named(fn, 'gen_symbols_samples')
+        if len(calls) != 2:
+            raise AnalysisError('gen_var_and_func_samples: expected two gen_symbols_samples calls')
+        params = idx.func(GSS).params
+        wants = [('variables', {'symbols': [VARS], 'samples': ["self.config['samples']"], 'sample_from': [SF], 'functions': ['self.functions'],
+                                'suffixes': ['self.suffixes'], 'constants': ['self.constants']}),
+                 ('random functions', {'symbols': ['list(self.random_funcs.keys())', 'list(self.random_funcs)', 'sorted(self.random_funcs)'],
+                                       'samples': ["self.config['samples']"], 'sample_from': ['self.random_funcs'],
+                                       'functions': ['self.functions'], 'suffixes': ['self.suffixes'], 'constants': ['{}', 'dict()']})]
+        known = ['self.functions', 'self.suffixes', 'self.constants', 'self.random_funcs', '{}', "self.config['samples']", VARS, SF]
+        order = sorted(calls, key=lambda c: 0 if X.mentions(c, VARS) else 1)
+        for (label, want), c in zip(wants, order):
+            bound = X.bind_call(c, params)
+            probs = []
+            for role, alts in want.items():
+                got = bound.get(role)
+                if got is None:
+                    probs.append('%s missing' % role)
+                elif X.any_match(alts, got) is None:
+                    if any(X.m(k, got) is not None for k in known):
+                        probs.append('%s=%s instead of %s' % (role, short(got), alts[0]))
+                    else:
+                        raise AnalysisError('argument %s=%s not recognised' % (role, short(got)))
+            r.check(not probs, 'gen_var_and_func_samples: gen_symbols_samples(%s) receives every argument in its role' % label,
+                    short(c, 100), '; '.join(probs) + (': constants would be missing from the samples and from dependent formulas'
+                                                      if any('constants' in p for p in probs) else ''), lib.loc(fi, c))
+        # return order
+        construct = 'gen_var_and_func_samples: returns (variable samples, function samples)'
+        rets = lib.returns_of(fn)
+        okr = len(rets) == 1 and isinstance(rets[0].value, ast.Tuple) and len(rets[0].value.elts) == 2
+        if okr:
+            v0 = lib.inline_locals(rets[0].value.elts[0], fn)
+            v1 = lib.inline_locals(rets[0].value.elts[1], fn)
+            same = lambda v, c: isinstance(v, ast.Call) and nf.equal(v, c)
+            if same(v0, order[0]) and same(v1, order[1]):
+                r.ok(construct, '', lib.loc(fi, rets[0]))
+            elif same(v0, order[1]) and same(v1, order[0]):
+                r.violation(construct, 'the two sample lists are returned in the opposite order', lib.loc(fi, rets[0]))
+            else:
+                r.undecided(construct, 'returned values not recognised', lib.loc(fi, rets[0]))
+        else:
+            r.undecided(construct, 'return not recognised', fi.loc)
 
 
 # ------------------------------------------------------------------------ self-test
@@ -848,13 +1228,13 @@ MUTANTS = [
     Mutant('constants-not-pruned', SAMPLING, "    pruned_constants = {sym: constants[sym] for sym in constants if sym not in symbols}", "    pruned_constants = dict(constants)", 'D2'),
     Mutant('constants-not-included', SAMPLING, "        sample_dict = pruned_constants.copy()", "        sample_dict = {}", 'D2'),
     Mutant('samples-share-one-dict', SAMPLING, "        sample_dict = pruned_constants.copy()", "        sample_dict = pruned_constants", 'D2'),
-    Mutant('readiness-test-dropped', SAMPLING, "                if is_subset(dependencies, sample_dict):", "                if True:", 'D2'),
-    Mutant('readiness-test-arguments-swapped', SAMPLING, "                if is_subset(dependencies, sample_dict):", "                if is_subset(sample_dict, dependencies):", 'D2'),
-    Mutant('is-subset-inverted', SAMPLING, "        if item not in iterable_superset:\n            return False", "        if item in iterable_superset:\n            return False", 'D2'),
+    Mutant('readiness-test-dropped', SAMPLING, "                if is_subset(dependencies, sample_dict):", "                if True:", 'D3'),
+    Mutant('readiness-test-arguments-swapped', SAMPLING, "                if is_subset(dependencies, sample_dict):", "                if is_subset(sample_dict, dependencies):", 'D3'),
+    Mutant('is-subset-inverted', SAMPLING, "        if item not in iterable_superset:\n            return False", "        if item in iterable_superset:\n            return False", 'D3'),
     Mutant('independents-are-the-dependents', SAMPLING, "        if not isinstance(sample_from[symbol], DependentSampler)\n    ]", "        if isinstance(sample_from[symbol], DependentSampler)\n    ]", 'D2'),
     Mutant('computed-from-the-constants-only', SAMPLING, "                    sample_dict[symbol] = sample_from[symbol].compute_sample(\n                        sample_dict, functions, suffixes)",
-           "                    sample_dict[symbol] = sample_from[symbol].compute_sample(\n                        pruned_constants, functions, suffixes)", 'D2'),
-    Mutant('functions-suffixes-swapped', SAMPLING, "                        sample_dict, functions, suffixes)", "                        sample_dict, suffixes, functions)", 'D2'),
+           "                    sample_dict[symbol] = sample_from[symbol].compute_sample(\n                        pruned_constants, functions, suffixes)", 'D3'),
+    Mutant('functions-suffixes-swapped', SAMPLING, "                        sample_dict, functions, suffixes)", "                        sample_dict, suffixes, functions)", 'D3'),
     Mutant('independents-drawn-once', SAMPLING, "    # Generate the samples\n    sample_list = []\n    for _ in range(samples):\n        # Generate independent samples\n        sample_dict = pruned_constants.copy()\n        sample_dict.update({\n            symbol: sample_from[symbol].gen_sample() for symbol in independent\n        })\n",
            "    # Generate the samples\n    sample_list = []\n    draws = {\n        symbol: sample_from[symbol].gen_sample() for symbol in independent\n    }\n    for _ in range(samples):\n        # Generate independent samples\n        sample_dict = pruned_constants.copy()\n        sample_dict.update(draws)\n", 'D2'),
     Mutant('one-sample-too-few', SAMPLING, "    for _ in range(samples):", "    for _ in range(samples - 1):", 'D2'),
@@ -874,6 +1254,7 @@ MUTANTS = [
     Mutant('head-appended', MH, "                variable_list.append(full_string)", "                variable_list.append(head)", 'D5'),
     Mutant('own-sampler-looked-up', MH, "                sample_from_dict[full_string] = sample_from_dict[head]", "                sample_from_dict[full_string] = sample_from_dict[self.config['numbered_vars'][0]]", 'D5'),
     Mutant('declared-names-rematched', MH, "        bad_vars = set(var for var in vars_used if var not in variable_list)", "        bad_vars = set(vars_used)", 'D5'),
+    Mutant('all-used-names-matched', MH, "        for var in bad_vars:", "        for var in vars_used:", 'D5'),
     Mutant('variables-extended-in-place', MH, "        variable_list = list(self.config['variables'])", "        variable_list = self.config['variables']", 'D5'),
     Mutant('sample-from-extended-in-place', MH, "        sample_from_dict = self.config['sample_from'].copy()", "        sample_from_dict = self.config['sample_from']", 'D5'),
     Mutant('user-constants-do-not-override', SAMPLING, "        constants[var] = user_consts[var]", "        constants.setdefault(var, user_consts[var])", 'D6'),
@@ -892,8 +1273,6 @@ BENIGN = [
     Benign('dependent-popped', SAMPLING, "                    del unevaluated_dependents[symbol]\n", "                    unevaluated_dependents.pop(symbol)\n"),
     Benign('is-subset-with-all', SAMPLING, "    for item in iterable:\n        if item not in iterable_superset:\n            return False\n    return True",
            "    return all(item in iterable_superset for item in iterable)"),
-    Benign('constants-pruned-in-a-loop', SAMPLING, "    pruned_constants = {sym: constants[sym] for sym in constants if sym not in symbols}",
-           "    pruned_constants = {}\n    for sym in constants:\n        if sym not in symbols:\n            pruned_constants[sym] = constants[sym]"),
     Benign('constants-merged-with-update', SAMPLING, "    for var in user_consts:\n        constants[var] = user_consts[var]\n", "    constants.update(user_consts)\n"),
     Benign('regexp-applied-with-fullmatch', MH, "            match = regexp.match(var)  # Returns None if no match", "            match = regexp.fullmatch(var)"),
     Benign('regexp-start-anchor-dropped', MH, "    regexp = (r\"^((\" + head_list + \")\"", "    regexp = (r\"((\" + head_list + \")\""),
